@@ -12,1995 +12,1752 @@ Definition show_fres (r : fres) : string :=
   end.
 Definition check (rs : list rune) : string := digest (show_fres (format_res rs)).
 Definition full (rs : list rune) : string := show_fres (format_res rs).
-Eval vm_compute in ("<<<M3652>>>" ++ check (runes_of_ascii "options {
-    ArrayPrefixLenType = u16;
-    FixedStringPadFromLeft = true;
-    JavaPackage = ""co\
-m.example.msg"";
-    GoPackage = ""ms\
-g"";
-    GoModule = ""example.com/msg"";
-}
-MetaData Meta {
-    u32 SeqNum `sequence number`,
-    char[8] Symbol `symbol`,
-    zchar[5] ZSym `z symbol`,
-    string Note,
-    Symbol AltSymbol `alias of symbol`,
-    f64 Price,
-}
-packet Inner {
-    u8 a,
-    i16 b,
-    string c,
-}
-packet Inner2 {
-    u8 a2,
-    char[3] c2,
-}
-packet Logon {
-    u8 x,
-    string user,
-    repeat u16 codes,
-}
-packet Logout {
-    u16 reason,
-}
-packet Empty {
-}
-root packet Msg {
-    u8 su8,
-    uint8 luint8,
-    u16 su16,
-    uint16 luint16,
-    u32 su32,
-    uint32 luint32,
-    u64 su64,
-    uint64 luint64,
-    i8 si8,
-    int8 lint8,
-    i16 si16,
-    int16 lint16,
-    i32 si32,
-    int32 lint32,
-    i64 si64,
-    int64 lint64,
-    f32 sf32,
-    float32 lfloat32,
-    f64 sf64,
-    float64 lfloat64,
-    char[6] fsplain,
-    @leftPad('0') char[4] fs0,
-    @rightPad('0') char[5] fs1,
-    @leftPad(' ') char[6] fs2,
-    @rightPad(' ') char[7] fs3,
-    @leftPad('\x00') char[8] fs4,
-    @rightPad('\x00') char[9] fs5,
-    @leftPad() char[10] fs6,
-    @rightPad() char[11] fs7,
-    zchar[7] fz,
-    @leftPad('0') zchar[3] fzl0,
-    string s1 `doc`,
-    char[] s2,
-    Inner,
-    Sub {
-        u8 q,
-        string w,
-        Deep {
-            u16 z,
-            repeat i32 zs,
-        },
-    },
-    repeat u8 ru8,
-    repeat u16 ru16,
-    repeat u32 ru32,
-    repeat u64 ru64,
-    repeat i8 ri8,
-    repeat i16 ri16,
-    repeat i32 ri32,
-    repeat i64 ri64,
-    repeat f32 rf32,
-    repeat f64 rf64,
-    repeat string rstr,
-    repeat char[] rstr2,
-    repeat char[3] rfs,
-    repeat zchar[3] rfz,
-    repeat Inner2,
-    repeat Grp {
-        u8 k,
-        char[2] v,
-    },
-    SeqNum,
-    SeqNum seq2,
-    repeat SeqNum seqs,
-    Symbol,
-    AltSymbol alt,
-    ZSym,
-    Note,
-    repeat Symbol syms,
-    Price px,
-    u16 MsgType,
-    u32 BodyLen @lengthOf(Body),
-    match MsgType as Body {
-        1 : Logon,
-        [2, 3] : Logout,
-        7 : Logon,
-        9 : Empty,
-    },
-    u32 Checksum @calculatedFrom(""CRC32""),
-}
-")).
-Eval vm_compute in ("<<<M1074>>>" ++ check (runes_of_ascii "root packet options1 {
-@rightPad( '0'
-    )	u64  string_
-    `a\`, @lengthOf(u128
-    /// triple
-    ) @tag(	7 )i16 // " ++ [27880; 37322]%N ++ runes_of_ascii "
-o ,repeat uint8 a1 , @lengthOf( msg_type ) repeat float64 Z9_`two words` ,  match metadata
-as
-Logon
-/// triple
-// a // b
-{ [""" ++ [128512]%N ++ runes_of_ascii """
-, 42]
-    : A , } , BodyLength len ,
-    // a // b
-    }
+Eval vm_compute in ("<<<M3871>>>" ++ check (runes_of_ascii "  MetaData
+leftPad{Header
+
+    falsey,}
     packet
-zchar {
-string_ lengthOf , match x as Logon { """ ++ [28040; 24687]%N ++ runes_of_ascii """ : calculatedFrom ,	""" ++ [233]%N ++ runes_of_ascii "t" ++ [233]%N ++ runes_of_ascii """ : roots
-[ 255 ] ://	t
-falsey 255 :
-T ,// packet A { u8 x, }
-}, repeat
-charz ,@calculatedFrom( // " ++ [128512]%N ++ runes_of_ascii " emoji
-""it's""  ) @calculatedFrom( ""\n"" ) @rightPad ( ' ')
-    int32
-    rootA , i64_ leftPad, roots , char[]
-// c
-// " ++ [128512]%N ++ runes_of_ascii " emoji
-msg_type `" ++ [233]%N ++ runes_of_ascii "`
-    , pack @calculatedFrom(""// no comment"" ) , @rightPad ( ' ' )	repeat// trailing space 
-leftPad ,int64 lengthOf,} // trailing space 
-packet  msg_type
-{@lengthOf(
-Z9_ )	repeat trueish
-// " ++ [27880; 37322]%N ++ runes_of_ascii "
-// " ++ [27880; 37322]%N ++ runes_of_ascii "
-{// trailing space 
-stringy
-`{ , }` , u64 calculatedFrom	@calculatedFrom( ""it's"") ,char[ // @lengthOf(
-10 //x
-] crc
-// a // b
-// " ++ [128512]%N ++ runes_of_ascii " emoji
-,
-    }	, match f32a as Logon{
-    // @lengthOf(
-    ""abc""
-: BodyLength, [	0 , 42
-]  :
-    Header
-007: Z9_
-""a\""b"":chars	,
-} ,@lengthOf(  roots
-)options1 // trailing space 
-A `u8 x,`
-    //	t
-    ,  char[
-1 ] u128
-    // " ++ [27880; 37322]%N ++ runes_of_ascii "
-    ,@lengthOf( x_y_z )
-//x
-//
-MetaDataX @calculatedFrom( ""1""
-    )
-`{ , }` , len
-{
-x_y_z Logon ,matchKey repeatCount
-// a // b
-// " ++ [27880; 37322]%N ++ runes_of_ascii "
-,
-T { i8 trueish @calculatedFrom( ""\" ++ [233]%N ++ runes_of_ascii """ )`tab	here`
-,} ,
-    // a // b
-    repeat float zchar /// triple
-`two words` ,} ,repeat  u8	metadata
-`crlf
-line`
-    ,@calculatedFrom( ""\" ++ [233]%N ++ runes_of_ascii """ )char[ 0	]
-trueish
-@calculatedFrom("""" )
-//
-//
-, //x
-uint8 charz // @lengthOf(
-, } MetaData
-    // a // b
-    a1{
-f32 trueish `line1
-line2` ,string uint8x// packet A { u8 x, }
-`" ++ [28040; 24687; 31867; 22411]%N ++ runes_of_ascii "`, i32 tag,
-stringy zchar  `" ++ [28040; 24687; 31867; 22411]%N ++ runes_of_ascii "`
-,	}
-")).
-Eval vm_compute in ("<<<M1098>>>" ++ check (runes_of_ascii "
-packet
-    uint8x { }  MetaData
-    trueish { }root packet  tag
-{
-@calculatedFrom(	""x y"") @tag( 255 ) @calculatedFrom( ""a	b"" ) string_ Packet, repeat
-u8 roots
-    `" ++ [28040; 24687; 31867; 22411]%N ++ runes_of_ascii "`,
-roots @calculatedFrom(""it's"" ) ,
-rootA{ Foo	@calculatedFrom( ""x y"" ) `{ , }`, } , //
-match MetaDataX
-    as x_y_z  { 3  : trueish
-    // a // b
-    0
-:
-zchar , /// triple
-""" ++ [233]%N ++ runes_of_ascii "t" ++ [233]%N ++ runes_of_ascii """:crc} ,
-    roots { repeat zchar[10	] A , },
-    @leftPad (
-    '\x00'	) repeat string
-    //x
-    lengthOf ,	@tag(  0 ) u128 ,} packet body {
-    len
-    // " ++ [27880; 37322]%N ++ runes_of_ascii "
-    `crlf
-line` , @lengthOf(
-    Pad )
-    @calculatedFrom( ""\" ++ [233]%N ++ runes_of_ascii """) @leftPad //	t
-(	' ' )
-repeat float
-{  zchar[
-    // `tick` ""quote"" 'q'
-    1 ]options1 , int32
-// " ++ [128512]%N ++ runes_of_ascii " emoji
-// trailing space 
-metadata @lengthOf( f32a ) , } , match Packet as _x
-    {  255 : Header,	007 : packetx
-, [ 42
-,255
-]//	t
-: msg_type // " ++ [128512]%N ++ runes_of_ascii " emoji
-00  :lengthOf [ 3 , 65535
-    ] // c
-: string_ , ""abc"":uint8x, }, repeat x_y_z {  Foo // " ++ [27880; 37322]%N ++ runes_of_ascii "
-{ repeat
-A
-    calculatedFrom, Z9_
-    @calculatedFrom( ""it's"" ) `{ , }` ,
-    repeat u repeatCount
-, repeat u16 u8x `// not a comment` , } ,
-u32  lengthOf `
-` ,int8 rootA//
-,
-    repeat a1 { match
-    //	t
-    options1 as repeatCount{[	255 , 007 ]
-: packetx  , } ,	As { repeatCount
-u	, zchar[
-255 ] BodyLength`{ , }` ,} ,}	, } ,
-    char[4294967296
-    ]	A `" ++ [233]%N ++ runes_of_ascii "` , u8 int
-, repeat
-    Packet  { x
-    calculatedFrom `" ++ [233]%N ++ runes_of_ascii "` ,
-} , A
-    // packet A { u8 x, }
-    , Foo @lengthOf(
-matchKey )	`" ++ [233]%N ++ runes_of_ascii "`  ,
-// `tick` ""quote"" 'q'
-// a // b
-uint32
-    options1,
-    } packet calculatedFrom
-{}
-")).
-Eval vm_compute in ("<<<M4351>>>" ++ check (runes_of_ascii "
-/// triple
-	packet
-	string_  {
+x_y_z {	@calculatedFrom(
+""`tick`""  )
+    @rightPad	// `tick` ""quote"" 'q'
+	('\x00'	)
 
-repeat As u128
-,  @lengthOf(
+match 
+matchKey as
+    As
+    { [
 
-Header 
-)i8i8 @lengthOf(
-    len
-)`" ++ [28040; 24687; 31867; 22411]%N ++ runes_of_ascii "` ,
-
-uint8x{
-
-match
-i8i8 as// trailing space 
-	msg_type {
-    65535	: 
-Foo 
-,	[	""abc""	,
-	00, 
-""// no comment"" ,
-	0  ,
-
-    0123456789 , 
-""// no comment"" ]  
-  // `tick` ""quote"" 'q'
-  // " ++ [128512]%N ++ runes_of_ascii " emoji
+""CRC32"",""\n""]	/// triple
 	:
 
-int 
-,	""" ++ [128512]%N ++ runes_of_ascii """ :
+    Logon
+,
+    [ 007	,""" ++ [28040; 24687]%N ++ runes_of_ascii """ 
+,""" ++ [28040; 24687]%N ++ runes_of_ascii """,  """ ++ [128512]%N ++ runes_of_ascii """
+    ,0123456789  ]
 
-    u8x ,
+:  //	t
+	x
+[
+1
 
-    ""x y""
-: x_y_z
-
-, 7
-    :  len,
-
-42	:  As // c
-	,
-}
-	,  }
-
-    ,@tag(
-
-    4294967296 
-	    // packet A { u8 x, }
-  // packet A { u8 x, }
-    ) zchar[
-    255 ]
-	repeatCount
-,repeat int16  x ,
-
-    u16
-Foo
-
-    `two words`
-
-, 
-repeat
-char[
-    42
-
-    ]f32a
-
-    ,  string
-
-    msg_type
-
-/// triple
-  , @rightPad( 
-' '
-
-    ) Z9_@calculatedFrom(//
-  	""it's"" ),}packet
-
-stringy 	 // packet A { u8 x, }
-		{
-    // `tick` ""quote"" 'q'
-      float32
-metadata,  }packet // @lengthOf(
-    body {
-    match leftPad
-    as falsey {
-
-""" ++ [233]%N ++ runes_of_ascii "t" ++ [233]%N ++ runes_of_ascii """
-
-:
-    len
-,  }
-	,  
-  // trailing space 
-	@calculatedFrom(
-
-    ""CRC32"") f32a{ uint32 
-body
-    @lengthOf(
-	Z9_
-	) 	 /// triple
-    	`line1
-line2`,
-    // @lengthOf(
-    f64
-u`line1
-line2`  ,
-trueish @lengthOf(
-    rootA
-
-    )	,
-    char[
-
-255	] u
-
-    @calculatedFrom(	""a	b"" 
-	    // `tick` ""quote"" 'q'
-    // @lengthOf(
-) ,
-
-    }
+    ]: /// triple
+	i8i8 ,""`tick`"" :  u8x
 
     ,
-	@tag( 
-42)	options1 a1
-    //
-	,char[]
+	} ,int64	_x
+    `tab	here`
+    // trailing space 
+		,@rightPad (
+    )  char[	255
 
-    Z9_	@calculatedFrom(  ""\n"" // c
-  )	,
-} 
-      //")).
-Eval vm_compute in ("<<<M4535>>>" ++ check (runes_of_ascii "packet f32a {
-    @calculatedFrom(""" ++ [128512]%N ++ runes_of_ascii """)
-    char[65535] Logon,
+] uint8x `a\`	, 
+string	string_ //x
+  ,
+    repeat	int16  packetx ,	// " ++ [27880; 37322]%N ++ runes_of_ascii "
+  @rightPad(
+
+    ' '
+) string string_
+    ,i16
+	asx @lengthOf(
+        // " ++ [128512]%N ++ runes_of_ascii " emoji
+      // trailing space 
+int)  `// not a comment` ,  float32 uint8x ,
+	i8	i64_
+@calculatedFrom( 
+""\n""
+    ) 
+	// packet A { u8 x, }
+    	,}
+    packet
+    T{ string_ 
+// a // b
+    // @lengthOf(
+@lengthOf(A )
+`{ , }`
+
+,@calculatedFrom(
+    """" ) 
+match Pad as
+u
+{	[ ""1"" 	 // " ++ [128512]%N ++ runes_of_ascii " emoji
+  ,""1""  ]  :
+body
+    ,[
+0123456789,	""a\\""
+,
+
+    /// triple
+  // trailing space 
+""" ++ [128512]%N ++ runes_of_ascii """, ""it's""
+	, ""it's""]:
+    lengthOf ,
+	""" ++ [128512]%N ++ runes_of_ascii """ :
+    A, [  0123456789
+
+// c
+	/// triple
+	, 3 ] :rootA
+	,
+    4294967296
+    :
+rootA } ,
+    string
+
+    metadata@lengthOf(
+A	) 
+
+// packet A { u8 x, }
+, @lengthOf( msg_type
+    )
+@rightPad(
+' ' 
+) @rightPad
+
+    (
+)
+f64
+
+u128
+
+@lengthOf(
+
+    rootA
+    /// triple
+  	// @lengthOf(
+    ) `{ , }`
+	,
+
 }
+packet int 
+{@tag(
+255 
+	// a // b
+    )
 
-packet calculatedFrom {
-    char[00] x `u8 x,`,
-    repeat u8x {
-        repeat float64 Packet,
-    },
-    repeat Z9_ leftPad,
-    @calculatedFrom(""{,}"")
-    repeat Header Foo,
-    @tag(4294967296)
-    @calculatedFrom(""it's"")
-    @lengthOf(Logon)
-    char[10] len ``,
-    char[7] lengthOf @calculatedFrom(""" ++ [28040; 24687]%N ++ runes_of_ascii """) `
-        `,
-    @lengthOf(i8i8)
-    repeat string_ trueish `doc`,
+@rightPad	( ' '  )repeat
+    char[ 10 
+] u128
+    ,
+@calculatedFrom(
+    ""\" ++ [233]%N ++ runes_of_ascii """
+    )
+    char[
+007
+    ]
+calculatedFrom ,
+
+    @rightPad  (
+    '\x00'  )repeat  zchar[ 
+007
+	] 
+i8i8  ,
+@calculatedFrom( ""// no comment"" ) char[]	x_y_z
+,
+zchar[ 
+
+// trailing space 
+	  0123456789 ] 
+msg_type@calculatedFrom(  ""a\""b""
+	)
+
+    ,
+
+    u8
+
+f32a
+
+    @lengthOf(
+rootA )
+
+    `crlf
+line`
+
+, zchar[
+    7// " ++ [128512]%N ++ runes_of_ascii " emoji
+    	]
+	msg_type
+
+@lengthOf(Header
+
+    ) `// not a comment`
+	,char[42]roots  `" ++ [233]%N ++ runes_of_ascii "` //
+
+, @lengthOf(
+    stringy
+
+    ) @lengthOf(As
+)
+
+    // trailing space 
+// " ++ [128512]%N ++ runes_of_ascii " emoji
+		zchar[7
+	] msg_type // " ++ [128512]%N ++ runes_of_ascii " emoji
+`{ , }` ,
+
+    }
+root packet
+
+u
+    { 	 // c
+  repeat uint64 As 
+,
+    }")).
+Eval vm_compute in ("<<<M271>>>" ++ check (runes_of_ascii "// " ++ [27880; 37322]%N ++ runes_of_ascii "
+options
+    {
+zchar // a // b
+= ""x y""
+; options1 = u16
+;} packet
+Pad{ Z9_@calculatedFrom(
+"""")`
+` , @tag( 42
+    ) //
+@tag( 00 ) @lengthOf( zchar	) match _x// packet A { u8 x, }
+as metadata	{
+007: As ""`tick`""// packet A { u8 x, }
+: lengthOf,255 :lengthOf ""a	b""
+// trailing space 
+// " ++ [27880; 37322]%N ++ runes_of_ascii "
+:
+Packet 255: a1
+    , // c
+[ 00 ,
+    0 , 10 ,	""a\\"" , ""it's"" ,
+10, 7	]
+: Foo , }
+    , match Header
+as  o{
+[// packet A { u8 x, }
+255 ]
+    : zchar ,0123456789 :leftPad
+    [	007	, 3 ] : leftPad , // c
+0: packetx
+, } , } MetaData
+    Pad { // packet A { u8 x, }
+} packet T
+    // packet A { u8 x, }
+    {
     // " ++ [27880; 37322]%N ++ runes_of_ascii "
-    match BodyLength as rootA {
-        ""packet"" : uint8x,
-    },
-    match u128 as float {
-        """ ++ [233]%N ++ runes_of_ascii "t" ++ [233]%N ++ runes_of_ascii """ : stringy,
-        ""packet"" : lengthOf,
-        """ ++ [233]%N ++ runes_of_ascii "t" ++ [233]%N ++ runes_of_ascii """ : lengthOf,
-        """ ++ [128512]%N ++ runes_of_ascii """ : lengthOf,
-        ""it's"" : As,
-        [""// no comment""] : int,
-    },
+    charz
+    @lengthOf(asx) `` , }
+packet
+matchKey
+{  @tag( 3
+) @calculatedFrom( ""a	b""
+/// triple
+// c
+)
+@calculatedFrom("""" ) pack	rootA
+    ,  repeat //	t
+leftPad `` , repeat uint32 Foo `u8 x,` , @calculatedFrom(
+""" ++ [233]%N ++ runes_of_ascii "t" ++ [233]%N ++ runes_of_ascii """) repeat char[ 65535 ] u , @lengthOf( _x )@lengthOf( u8x ) repeat zchar[ 0123456789 ] x
+, match i64_ // " ++ [27880; 37322]%N ++ runes_of_ascii "
+as falsey{ // trailing space 
+255 :
+f32a , ""{,}"" : x ,""\" ++ [233]%N ++ runes_of_ascii """	: matchKey
+,
+[	"""",
+    // trailing space 
+    ""{,}"" ,
+    10 , """ ++ [128512]%N ++ runes_of_ascii """
+// a // b
+// packet A { u8 x, }
+, ""a	b"", 0
+,
+""1"",65535
+]: len , ""\" ++ [233]%N ++ runes_of_ascii """ :
+    T
+, [ ""CRC32"" ,
+    // " ++ [128512]%N ++ runes_of_ascii " emoji
+    1 , ""// no comment""
+, 007,1 ,	""`tick`"", """ ++ [128512]%N ++ runes_of_ascii """
+]// packet A { u8 x, }
+: a1  },match
+x as
+As
+{
+    ""a	b"":	o , 007
+:MetaDataX  ,  [
+""a	b""
+]:
+falsey , ""// no comment""
+    : Z9_""packet"":
+    _x
+    // " ++ [128512]%N ++ runes_of_ascii " emoji
+    , },repeat rootA {	uint8 MetaDataX
+    @calculatedFrom(
+    ""abc""
+    ) ,
+    match // `tick` ""quote"" 'q'
+int as// a // b
+asx {	[10	,
+10 , ""`tick`""  , 00 , 4294967296 ]
+    :
+    o ,
+    ""CRC32"" :
+string_ , [ 0
+]
+:	roots 65535 :
+// " ++ [27880; 37322]%N ++ runes_of_ascii "
+// trailing space 
+_x //
+, ""it's"" : Pad, 4294967296 : Pad , }
+,	u16	chars
+`line1
+line2`
+, //x
+}
+    ,
+}")).
+Eval vm_compute in ("<<<M1092>>>" ++ check (runes_of_ascii "packet	crc {Logon  {u64 Z9_
+// " ++ [27880; 37322]%N ++ runes_of_ascii "
+// c
+@lengthOf(A
+) , f64 int,//
+match BodyLength as MetaDataX // a // b
+{
+""" ++ [28040; 24687]%N ++ runes_of_ascii """ :
+msg_type ,00 :
+falsey, 00 :
+tag // @lengthOf(
+,
+""it's"": options1, 007
+    //	t
+    : len ,65535 :
+    falsey , } ,	repeat char[] int  ,//x
+}, }
+root packet	repeatCount { }packet BodyLength{
+stringy // trailing space 
+{	len	`
+`,
+    }
+    ,  repeat i32 int // a // b
+,
+match Foo as crc
+// trailing space 
+/// triple
+{
+0: i8i8, 3 : // " ++ [27880; 37322]%N ++ runes_of_ascii "
+chars
+,
+}
+,repeat  x  { zchar[
+007 ]
+    chars
+,
+    repeat chars
+    // " ++ [27880; 37322]%N ++ runes_of_ascii "
+    {
+repeat stringy {x_y_z u128 , string options1 `two words`
+, char[  0123456789
+]body
+    `crlf
+line` ,  repeat int32 i64_
+, } ,
+char[ //x
+42]
+crc
+, Pad
+    `tab	here` , f32a
+{lengthOf f32a ,} , } ,} ,
+i8 stringy , f32a  {match body as body
+{
+""\" ++ [233]%N ++ runes_of_ascii """// packet A { u8 x, }
+:	u128	} ,
+    repeat
+string len
+    `a\`
+    , repeat As
+// c
+//	t
+asx `it's` , } , }	MetaData rootA {
+//
+//
+metadata metadata , A _x , u T , char[ // " ++ [128512]%N ++ runes_of_ascii " emoji
+3 ] a1 `line1
+line2` // " ++ [128512]%N ++ runes_of_ascii " emoji
+,
+zchar[ 4294967296  ] packetx
+    // @lengthOf(
+    `{ , }` , string
+Logon `" ++ [233]%N ++ runes_of_ascii "` ,  } packet BodyLength
+    {@calculatedFrom( /// triple
+""\n""
+    )
+int8
+    a1
+    @lengthOf( falsey
+) , //
+@calculatedFrom( ""\" ++ [233]%N ++ runes_of_ascii """)@tag(0123456789
+    ) lengthOf , @tag( 007
+    // c
+    ) //
+match Logon // " ++ [27880; 37322]%N ++ runes_of_ascii "
+as f32a
+// @lengthOf(
+/// triple
+{ 0 :
+zchar // @lengthOf(
+, } ,@lengthOf( i8i8 ) match options1
+    //	t
+    as string_ { [""a\""b"" , 00 , /// triple
+4294967296, 4294967296
+, ""a	b"",1 ] :
+A
+}
+,}
+")).
+Eval vm_compute in ("<<<M896>>>" ++ check (runes_of_ascii "MetaData
+falsey { char[] f32a
+`" ++ [28040; 24687; 31867; 22411]%N ++ runes_of_ascii "` , u8x len
+/// triple
+// " ++ [128512]%N ++ runes_of_ascii " emoji
+`" ++ [233]%N ++ runes_of_ascii "`, char[] uint8x , f32 trueish
+, char[ 10 ] len `two words`,
+    rootA  int
+, }
+root
+packet
+    A{ Z9_, repeat MetaDataX
+    `it's` , @tag(
+007 )	repeat options1 A//	t
+,repeat x `line1
+line2` ,  MetaDataX
+    /// triple
+    @lengthOf( options1 ) `say ""hi""`	,
+}
+// trailing space 
+// " ++ [27880; 37322]%N ++ runes_of_ascii "
+root packet rootA{ @tag( 255
+) char[ 10 ]	Foo @lengthOf( metadata) ``
+//
+// " ++ [128512]%N ++ runes_of_ascii " emoji
+,  @leftPad
+    (
+'\x00'
+) msg_type {
+//x
+// a // b
+float32 // packet A { u8 x, }
+Pad
+,
+    repeat uint32 Logon , },
+    @leftPad(
+    )
+stringy
+@calculatedFrom(
+""" ++ [128512]%N ++ runes_of_ascii """) `" ++ [28040; 24687; 31867; 22411]%N ++ runes_of_ascii "`  , @tag( 4294967296 )	@tag( 4294967296 ) @lengthOf( // trailing space 
+i8i8 ) BodyLength { zchar[42 ] u128 , crc
+    {char[
+255] Z9_ @lengthOf( int	)
+// packet A { u8 x, }
+// " ++ [128512]%N ++ runes_of_ascii " emoji
+, } ,
+}
+, @tag(//x
+10	)zchar[ 3 ] //	t
+stringy @calculatedFrom( ""\n""
+) // " ++ [27880; 37322]%N ++ runes_of_ascii "
+, a1
+    calculatedFrom ,
+} packet // packet A { u8 x, }
+u8x {
+x_y_z@lengthOf(lengthOf ) `crlf
+line` , match	uint8x
+    as  repeatCount { [
+""a\""b""
+,
+""// no comment"" ] :
+    Header [ ""a\\""
+    ,// " ++ [27880; 37322]%N ++ runes_of_ascii "
+4294967296 ]: roots
+// " ++ [128512]%N ++ runes_of_ascii " emoji
+// " ++ [128512]%N ++ runes_of_ascii " emoji
+,
+// " ++ [128512]%N ++ runes_of_ascii " emoji
+// @lengthOf(
+42 : rootA ,
+    [
+1 , """" /// triple
+,""`tick`"" , ""a	b"" ] : tag
+,  ""1""
+    : u8x // a // b
+,
+    }, f32a`a\`
+    //x
+    ,
+@lengthOf( u8x  ) pack asx
+, uint64	leftPad , repeat char[ 0] Pad , }
+")).
+Eval vm_compute in ("<<<M3731>>>" ++ check (runes_of_ascii "options {
+    T = ""it's"";// trailing space 
+    Z9_ = ""\" ++ [233]%N ++ runes_of_ascii """
+    int = '\x00'
+    u8x = ""`tick`""
+    crc = ""packet"";
 }
 
-root packet _x {
-    Header `say ""hi""`,
-    @leftPad('\x00')
-    @lengthOf(Packet)
-    @rightPad(' ')
-    string msg_type @calculatedFrom(""" ++ [233]%N ++ runes_of_ascii "t" ++ [233]%N ++ runes_of_ascii """) `tab	here`,
-    i64 zchar `crlf
-        line`,
-    i32 x_y_z,
-    @tag(7)
-    @leftPad(' ')
-    @calculatedFrom(""1"")
-    falsey `two words`,
-}// " ++ [27880; 37322]%N ++ runes_of_ascii "
-
-packet metadata {
-    f64 u8x,
-    u16 o `crlf
-        line`,
-    msg_type {
-        u8 a1 @lengthOf(u) `it's`,// trailing space 
+root packet string_ {
+    match charz as u {
+        // " ++ [128512]%N ++ runes_of_ascii " emoji
+        0123456789 : zchar,
+        42 : rootA,
+        007 : crc,
+        """ ++ [28040; 24687]%N ++ runes_of_ascii """ : Foo,
+        [007, ""x y""] : int,
+        // " ++ [27880; 37322]%N ++ runes_of_ascii "
     },
-    @lengthOf(rootA)
-    f32a {
-        repeat u16 uint8x,
-    },//
+    @tag(7)
+    repeat metadata,
+    string len @lengthOf(o) `crlf
+    line`,
+    repeat int32 falsey `
+    `,
+    @leftPad()
+    x @calculatedFrom(""// no comment"") `// not a comment`,
+    uint16 rootA,
+    @lengthOf(a1)
+    char calculatedFrom,
+    @tag(3)
+    zchar[65535] body,
+}
+
+packet Logon {
+    @leftPad()
+    @tag(7)
+    char u128 `say ""hi""`,
+    @tag(10)
+    char[42] roots,
+}
+
+root packet i64_ {
+    repeat _x {
+        repeat MetaDataX o,
+    },
+    u128 {
+        asx {
+            u8 a1,
+            repeat As,// a // b
+        },
+    },
+    int16 Foo,
+    u64 asx `
+    `,
+    u8x @lengthOf(crc),
+    @calculatedFrom(""CRC32"")
+    @lengthOf(body)
+    @tag(7)
+    falsey body `{ , }`,
+    MetaDataX {
+        trueish MetaDataX `tab	here`,
+        char[3] i8i8 @calculatedFrom(""" ++ [128512]%N ++ runes_of_ascii """) `" ++ [233]%N ++ runes_of_ascii "`,
+    },
 }
 
 options {
-}// " ++ [128512]%N ++ runes_of_ascii " emoji")).
-Eval vm_compute in ("<<<M3958>>>" ++ check (runes_of_ascii "options
-
-    {Packet
-	=""packet""len
-
-    = ""packet"";
-charz =
-true }
-	packet	calculatedFrom	// c
-{ 
-        //	t
-  // a // b
-  	repeat 	 // " ++ [27880; 37322]%N ++ runes_of_ascii "
-
-Packet
-
-,
-    uint8x
-    @calculatedFrom(  
-      // @lengthOf(
-
-// `tick` ""quote"" 'q'
-    ""\n""  ), @calculatedFrom(	""// no comment"")
-
-    @rightPad	/// triple
-
-	(
-
-    ' ' )	match  x 
-//x
-
-  //	t
-  	as Packet	{
-00
-    :
-
-    Pad
-	[ 
-0
-] 
-:	// @lengthOf(
-  As
-    ,
-
-    } ,  @lengthOf(
-
-chars ) a1`it's`
-,	match
-	Logon
-as
-int
-{
-	""packet""
-	: 
-int
-    [""" ++ [28040; 24687]%N ++ runes_of_ascii """ ,0123456789	// trailing space 
-  ,  ""x y""
-
-,65535
-
-//	t
-
-	]  : lengthOf
-
-,
-
-    10	: asx
-,
-    [
-""// no comment"" ] :
-
-zchar
-,
-
-""// no comment""
-
-:
-    a1
-    //
-	// `tick` ""quote"" 'q'
-	,0
-	:	len
-, 
-} 	 // " ++ [27880; 37322]%N ++ runes_of_ascii "
-	,
-match
-u8x
-
-as  MetaDataX
-	{ [ 255]
-:
-string_ // packet A { u8 x, }
-		, [  ""// no comment""
-,  ""CRC32""  ]  :
-metadata  , // packet A { u8 x, }
-    	""a\""b""
-: 
-	    // " ++ [27880; 37322]%N ++ runes_of_ascii "
-leftPad  }
-,
-	Header
-    `tab	here`
-
-, }packet u128
-{ char[ 
-10  //x
-	]  trueish	`tab	here`
-, repeat
-    asx
-
-    { 
-match len
-
-as chars
-	{
-
-1 
-:
-MetaDataX  ,
-	42	: roots,
-10
-: BodyLength , ""// no comment"":
-
-    o ,
-""a\\"": i64_  ,
-}
-	,
-
-    } ,  }
-")).
-Eval vm_compute in ("<<<M3684>>>" ++ check (runes_of_ascii "options
-{lengthOf 
-=
-""" ++ [128512]%N ++ runes_of_ascii """ Pad  =
-
-""it's""
-	Packet 
-=' '
-	;}
-
-    packet stringy
-	{
-
-    @calculatedFrom(""a\\"")stringy 
-asx 
-  //x
-  `doc` ,
-
-f32a
-	,
-	options1 
-{
-	f64	BodyLength
-    @lengthOf( i64_
-
-),
-
-    matchKey
-// `tick` ""quote"" 'q'
-	roots
-
-,
-	repeat i8 chars , 
-/// triple
-  	}
-,	charz
-    string_ 
-, i8 repeatCount `crlf
-line`,	} packet
-    uint8x
-{ 
-@tag(
-
-00// " ++ [128512]%N ++ runes_of_ascii " emoji
-      )
-
-    uint64  MetaDataX ,  @tag(  00
-	)
-char uint8x  @lengthOf(	uint8x )
-
-    ,
-	roots@lengthOf( stringy) `
-`
-,
-@rightPad
-() 
-zchar[ 
-0123456789  
-  //
-	]
-
-    T  //x
-`" ++ [233]%N ++ runes_of_ascii "` ,  @tag( 42
-)
-    repeat
-
-i64	repeatCount  // `tick` ""quote"" 'q'
-,
-    falsey`doc` 
-,char[
-
-    65535]
-falsey
-
-    `say ""hi""`  ,
-
-    x_y_z  int,
-@lengthOf(  MetaDataX )
-
-    match  Logon as leftPad{ ""abc""  :
-zchar,
-
-    255 
-:
-A	,}	, } MetaData falsey {}packet
-	BodyLength  {
-Pad
-
-    asx
-,
-@calculatedFrom(
-
-""a	b""	// " ++ [27880; 37322]%N ++ runes_of_ascii "
-	  )
-
-string
-packetx
-        //
-    // packet A { u8 x, }
-	`it's`
-,float64
-	uint8x`two words`
-
-    ,
-	zchar[
-	007 ]uint8x 
-@calculatedFrom(
-
-    ""a\\""//x
-	)
-
-`" ++ [28040; 24687; 31867; 22411]%N ++ runes_of_ascii "`
-    ,
+    _x = false
+    _x = char[0123456789]
+    repeatCount = ' '
+    _x = ""packet"";
 }")).
-Eval vm_compute in ("<<<M618>>>" ++ check (runes_of_ascii "
-options { i64_ = int16; } packet
-    // @lengthOf(
-    crc
-{ @tag(
-0123456789)
-    // a // b
-    repeat
-crc
-{ char[ 1]	As @lengthOf(//
-repeatCount) ,}, } root packet
-falsey
+Eval vm_compute in ("<<<M557>>>" ++ check (runes_of_ascii "packet falsey
 { repeat
-repeatCount	{repeat Header {
-calculatedFrom float `u8 x,` , } //
-,
-string u8x @lengthOf( zchar)
-,	char[ 255]
-    Foo , // " ++ [27880; 37322]%N ++ runes_of_ascii "
-} // `tick` ""quote"" 'q'
-,	@lengthOf( Z9_ ) packetx , /// triple
-repeat
-    // " ++ [128512]%N ++ runes_of_ascii " emoji
-    string
-BodyLength
-    , @rightPad ( ' '
-)
-crc @calculatedFrom( // c
-""\n"") , repeat options1
-{ match Z9_
-as A { 0 :
-    matchKey ,	[ 00,
-    10 ,
-    0,
-    """ ++ [233]%N ++ runes_of_ascii "t" ++ [233]%N ++ runes_of_ascii """ ]
-    : zchar ,	""1"" : trueish ,""abc"" :
-metadata ,
-    255
-    : matchKey
-    ,
-    },packetx @calculatedFrom( ""a\""b"" ) `
-` , // packet A { u8 x, }
-} , @tag(
-    0
-    )i32 A	, @calculatedFrom(  ""{,}"" ) @tag(
-    3
-    )
-    As ,
-    repeat f64 zchar`// not a comment`// a // b
-,
-}  packet rootA  {  @leftPad
-(	'0')
-trueish stringy`{ , }` , @calculatedFrom( ""{,}"" ) @tag( 3 )  u64	Pad@calculatedFrom( ""a	b"" ),uint16 _x @lengthOf(int) ``
-,
-    }MetaData
-    int{ }
-")).
-Eval vm_compute in ("<<<M204>>>" ++ check (runes_of_ascii "options {
-chars  =
-    //x
-    ' '	}
-root packet	string_ {i8i8 @lengthOf(
-Z9_ )
-,	match int as chars // c
-{ 007: body	,[ // packet A { u8 x, }
-42 ] : int	, ""`tick`"" : options1
-, } ,
-@leftPad ( ' ' )uint16 crc `it's` , // a // b
-float64  packetx
-@lengthOf( crc // " ++ [27880; 37322]%N ++ runes_of_ascii "
-)// trailing space 
-, @tag(4294967296
-) match int
-as chars{4294967296
-    : Foo ,
-1:
-asx 10
-: Pad
-    0123456789	: string_
-,
-3
-// " ++ [27880; 37322]%N ++ runes_of_ascii "
-// " ++ [128512]%N ++ runes_of_ascii " emoji
-: T , ""it's""  : As  } , repeat  float falsey `say ""hi""`  ,
-match uint8x as zchar { ""// no comment""
-    : body
-, 0123456789 : crc , ""{,}"" : o } ,repeat o chars ,uint32
-As
-`doc` ,
-repeat trueish
-{ char[
-    7
-] i64_
-`{ , }`  , }
-, } packet
-    Packet {
-zchar[ 0123456789 ] matchKey @lengthOf( chars
-)  ,  x
+    zchar[ 0  ]
+    x_y_z `it's`, repeat char[] MetaDataX
+`u8 x,` ,
+@rightPad
+// trailing space 
+// trailing space 
+( )
+    match i8i8 as
+    charz{ [ 4294967296, 00 ]: crc
+, } ,repeat
+    string u8x `` ,
+Pad , @lengthOf(// c
+u128 )  @tag( 65535 )
 //	t
-// a // b
-{
-u64 o ,} , zchar[
-    // a // b
-    1 ]
+// " ++ [128512]%N ++ runes_of_ascii " emoji
+tag body
+    // c
+    , } packet As  {
+    @calculatedFrom( ""// no comment""
+) repeat uint64
+msg_type
+    //	t
+    `two words`
+, @tag(007 )
+    @calculatedFrom(
+""`tick`""//x
+)@rightPad (	'\x00' //
+) int32	repeatCount, repeat	repeatCount	Pad
+, x
     MetaDataX
-@calculatedFrom(
-"""" ), char[]lengthOf// trailing space 
-@calculatedFrom( // " ++ [27880; 37322]%N ++ runes_of_ascii "
-""a\""b""
-) `
-` ,@rightPad( ' ' ) //	t
-uint16
-len `a\` , @lengthOf( //x
-tag )
-char[ 65535
-] pack ``, }
-")).
-Eval vm_compute in ("<<<M407>>>" ++ check (runes_of_ascii "// a // b
-packet// a // b
-o
-{ body
-// trailing space 
+    `a\`	,char[	1 ] uint8x `u8 x,` , @calculatedFrom(
+    """" ) @calculatedFrom( ""// no comment"" )@tag(3) repeat i64// trailing space 
+trueish
+/// triple
 // `tick` ""quote"" 'q'
-{ repeat string Z9_ ,
-    match roots as A
-{ [""" ++ [28040; 24687]%N ++ runes_of_ascii """,0
-,00
-    ,
-0 ,	00 ,
-65535 ]
-:
-// c
-//x
-T } , }
-    , @calculatedFrom( ""\" ++ [233]%N ++ runes_of_ascii """  ) repeat asx{uint8  x_y_z
-,
-}
-,  f64  Header
-`line1
-line2` ,}options {
-    f32a	=
-    // c
-    7  ; packetx = 0123456789 u8x = """"
-    ;
-    } // a // b
-root packet stringy { Foo @calculatedFrom(  ""abc""
+, @lengthOf( MetaDataX
     )
-    `
-`, @lengthOf( pack) repeat
-    u8x{ f32
-    zchar ,
-    //x
-    uint32 Z9_`tab	here`	,	leftPad {
-msg_type @lengthOf(BodyLength )
-,
-repeat int8 T, string_ uint8x, match trueish as A{
-[
-""a	b"" ,
-""a\\""
-] : // packet A { u8 x, }
-trueish
-, [ ""a\\"",42,
-""it's""
-    ,
-00, """ ++ [128512]%N ++ runes_of_ascii """] :  msg_type , ""a\\""
-    : Z9_
-/// triple
-/// triple
-, ""it's"" : // `tick` ""quote"" 'q'
-T , ""\" ++ [233]%N ++ runes_of_ascii """ : As [4294967296, ""x y""
-, 3 //
-, ""abc"", // packet A { u8 x, }
-""1""
-, """ ++ [233]%N ++ runes_of_ascii "t" ++ [233]%N ++ runes_of_ascii """
-    , 42	, ""\n""
-    ]
-: matchKey
-,
-}, }
-, }
-, }
-")).
-Eval vm_compute in ("<<<M429>>>" ++ check (runes_of_ascii "packet options1 {repeat
-u128 { repeat	Z9_//
-, Packet { falsey {match len // @lengthOf(
-as //x
-roots// packet A { u8 x, }
-{
-255 :
-    msg_type , 10 :
-string_ 0 : int
-//x
-// `tick` ""quote"" 'q'
-, }
-,// c
-int16 Packet @lengthOf( // packet A { u8 x, }
-f32a	)  ,  match lengthOf as //
-leftPad {[ 00
-,
-    ""abc"" ]: charz ,} , repeat zchar[42 ]
-Header `{ , }`,	}
+Z9_, }  MetaData Logon
+    /// triple
+    {  i8i8 matchKey , u64
+i8i8
+, // trailing space 
+options1 zchar
+    // " ++ [128512]%N ++ runes_of_ascii " emoji
+    `" ++ [28040; 24687; 31867; 22411]%N ++ runes_of_ascii "` ,}
 //
-// a // b
-, }
-//x
-// c
-,
-    // `tick` ""quote"" 'q'
-    repeat u {
-tag
-//	t
-// @lengthOf(
-{ /// triple
-char[ 0] rootA
-    @lengthOf( i8i8 )
-, } , zchar[007]charz
-    `two words` , }
-    , } ,zchar[ 3 ]
-u128
-    @lengthOf( falsey
-) , repeat string x // trailing space 
-,// packet A { u8 x, }
-repeat Foo _x `u8 x,` , match
-roots as
-Packet	{
-    ""1"" :// a // b
-falsey , } ,
-@lengthOf(
-uint8x
-//x
-// " ++ [128512]%N ++ runes_of_ascii " emoji
-) // packet A { u8 x, }
-@lengthOf(  lengthOf )@lengthOf( f32a )zchar[ 255 ] T `two words` ,f32a T ,
-}")).
-Eval vm_compute in ("<<<M644>>>" ++ check (runes_of_ascii "packet
-falsey { uint64 calculatedFrom@lengthOf(//	t
-msg_type )
 /// triple
-//	t
-, i16
-    zchar , f32	a1 ,
-    // " ++ [27880; 37322]%N ++ runes_of_ascii "
-    @calculatedFrom(
-""// no comment"")a1 /// triple
-`say ""hi""`,
-As
-// " ++ [128512]%N ++ runes_of_ascii " emoji
-//x
-Z9_ ,
+root	packet matchKey
+    /// triple
+    { T matchKey //	t
+, repeat	uint64
     // packet A { u8 x, }
-    repeatCount @lengthOf(uint8x ) , u8 o @calculatedFrom(	""`tick`"")`say ""hi""`
-,
-f32
-    A @lengthOf(
-    //
-    packetx
-    // `tick` ""quote"" 'q'
-    )`line1
-line2` ,}	MetaData len
-    {As rootA
-, zchar[ 10
-]
-BodyLength `it's` ,
-int32	crc
-`
-` ,
-zchar
-u8x
-, leftPad BodyLength ,
-} MetaData zchar
-{options1 calculatedFrom, zchar[ 7  ]trueish
-    // c
-    , } // " ++ [27880; 37322]%N ++ runes_of_ascii "
-root
-    packet Foo { @lengthOf( i8i8 )	repeat	zchar[  255 ] u `// not a comment`
-,} MetaData // " ++ [27880; 37322]%N ++ runes_of_ascii "
-int
-    /// triple
-    { uint16 matchKey  , int16 // `tick` ""quote"" 'q'
-x_y_z//
-`say ""hi""` ,
-leftPad Logon ,}
-")).
-Eval vm_compute in ("<<<M4210>>>" ++ check (runes_of_ascii "
-
-  // top
-		options 
-  // c0
-  {// c1a
-	  // c1b
-	  FixedStringPadChar// c2a
-  // c2b
-	=	// c3a
-	// c3b
-    	'0' 	 // c4
-  	; // c5
-  } // c6
-    packet// c7
-      Q 
-    // c8
-
-  { 	 // c9
-    	zchar[ 
-  // c10
-      4	// c11a
-  // c11b
-  ]// c12
-z 
-    // c13
-  ,
-	// c14
-@rightPad	// c15
-
-( // c16a
-    // c16b
-
-'\x00'  // c17a
-    	// c17b
-  )// c18
-char[
-
-    3// c20
-    ]	// c21a
-		// c21b
-n
-
-    // c22
-	,
-char[  // c24
-
-5
-] 
-      // c26
-  d// c27
-	, 
-	    // c28
-  } 
-root  // c30
-	packet
-
-R // c32
-  { 	 // c33
-Q 
-  // c34
-
-  , 	 // c35
-zchar[  // c36
-  8// c37a
-    // c37b
-  ]
-    // c38
-
-  top  // c39a
-  // c39b
-	, 
-repeat	// c41a
-// c41b
-  zchar[ // c42
-  2	// c43a
-  // c43b
-]	// c44
-  zs 	 // c45
-, 	 // c46
-	}
-
-    // c47
-")).
-Eval vm_compute in ("<<<M835>>>" ++ check (runes_of_ascii "
-MetaData crc  {
-} packet options1
-{ u32 int@lengthOf(
-int), @leftPad
-    /// triple
-    ( '\x00' )  repeat string uint8x
-,
-@lengthOf(
-    T )
-zchar trueish , @leftPad( )
-int32 // a // b
-i8i8 @lengthOf( u8x
-    // " ++ [27880; 37322]%N ++ runes_of_ascii "
-    ),
-// c
-// " ++ [27880; 37322]%N ++ runes_of_ascii "
-repeatCount@calculatedFrom( ""x y"" )
-    ,
-    Logon	falsey ,}options {
-int
-= ""\n"" //	t
-len=true ; _x= char
-As =	int16
-    ; }packet Z9_ { repeat rootA
-    , @lengthOf( a1 )  string_
-trueish
-    `" ++ [233]%N ++ runes_of_ascii "` ,
-int8	Foo , @tag(
-007) repeat falsey`// not a comment` /// triple
-, @tag(  0
-)f64 x @calculatedFrom( ""a\\""
-    // c
-    ) `// not a comment` , // `tick` ""quote"" 'q'
-uint64
-Header
-,
-u8 charz	@calculatedFrom( """ ++ [128512]%N ++ runes_of_ascii """) `" ++ [28040; 24687; 31867; 22411]%N ++ runes_of_ascii "` , i32 As @lengthOf(
-a1) `{ , }` , @calculatedFrom(
-    ""a	b"")
-uint16 x ,
-}
-")).
-Eval vm_compute in ("<<<M546>>>" ++ check (runes_of_ascii "// a // b
-packet  rootA
-{
-@lengthOf( Packet
-    )	Logon { char[ 7 ]
-    /// triple
-    T //
-`
-`
-    // @lengthOf(
-    ,}, @lengthOf(  rootA
-) repeat zchar[00 ]	Header ,
-// c
-// packet A { u8 x, }
-repeat i8i8 {
-match Foo as i8i8 {
-[ 4294967296
-, 1 ,7, ""\" ++ [233]%N ++ runes_of_ascii """, ""\n"" ,
-42 , 255 ,007
-] : options1
-    ,
-4294967296 : pack
-""""
-:u8x,[
-65535 ,  ""\n""
-] :  pack , ""`tick`"" : Z9_ },float64 stringy ,} ,	@calculatedFrom(
-""`tick`""
-)x
-{
-A @lengthOf(
     crc
-    ), char[ 00
-] roots
-, }, @lengthOf( int
-) // " ++ [27880; 37322]%N ++ runes_of_ascii "
-@lengthOf(
-    u8x	)// @lengthOf(
-@lengthOf(
-    a1 ) uint16 trueish
-    @calculatedFrom(
-    ""a\\""
-) //x
-, Header@lengthOf(MetaDataX )
-    `say ""hi""`  , roots	@lengthOf( a1 ),
-    }
-// " ++ [128512]%N ++ runes_of_ascii " emoji
+`" ++ [28040; 24687; 31867; 22411]%N ++ runes_of_ascii "`	, repeat
+    zchar[ 0123456789 ]	i8i8 ,string len//	t
+, } MetaData x_y_z
+/// triple
+// a // b
+{
+    i8i8 i64_
+, }
+
 ")).
-Eval vm_compute in ("<<<M579>>>" ++ check (runes_of_ascii "packet
-    A{
-    repeatCount
-    {
-    // " ++ [27880; 37322]%N ++ runes_of_ascii "
-    repeat string//	t
-falsey
-`" ++ [233]%N ++ runes_of_ascii "` , x Z9_ //x
-,rootA repeatCount`a\` , repeat // " ++ [128512]%N ++ runes_of_ascii " emoji
-char[]
-x_y_z
-``, }
-,} root packet
-    //
-    int
-    { @calculatedFrom( ""\n"") @calculatedFrom(
-    ""a\\"" // trailing space 
-) repeat lengthOf repeatCount `two words`
-// packet A { u8 x, }
-// c
-,} root packet
-BodyLength {
-@calculatedFrom( ""`tick`"" ) repeat asx { zchar[ 10 ]
-MetaDataX , repeat
-    char[ 4294967296 ] rootA`say ""hi""`
-    , uint64 As
-`" ++ [233]%N ++ runes_of_ascii "` ,
-chars
-u , } ,@tag( 0123456789	) @tag( 0 )string
-roots	`" ++ [28040; 24687; 31867; 22411]%N ++ runes_of_ascii "` ,
-    u8 crc /// triple
-`{ , }` , // a // b
-@calculatedFrom(
-    ""CRC32"")repeat i64_ _x ,
-char Packet , }")).
-Eval vm_compute in ("<<<M276>>>" ++ check (runes_of_ascii "packet zchar { msg_type ,
+Eval vm_compute in ("<<<M522>>>" ++ check (runes_of_ascii "root packet i64_
+// " ++ [27880; 37322]%N ++ runes_of_ascii "
+// a // b
+{/// triple
+lengthOf {// c
+T	{/// triple
+zchar tag ,match
 //
 // `tick` ""quote"" 'q'
-@tag( 65535 ) repeat float32 len,
-    @lengthOf(
-// " ++ [27880; 37322]%N ++ runes_of_ascii "
-// `tick` ""quote"" 'q'
-crc )	lengthOf
-    //
-    {
-repeat float `say ""hi""` ,}	, u32 // a // b
-Packet
-@lengthOf( i8i8// a // b
-)  `
-`
-// packet A { u8 x, }
-// packet A { u8 x, }
-,
-i8i8 // a // b
-, u32 calculatedFrom  @lengthOf( BodyLength //x
-)`a\` , @lengthOf( Logon// " ++ [128512]%N ++ runes_of_ascii " emoji
-) match MetaDataX
-as	Foo  { [
-""\n"" ,
-255 ] :Packet , 3: o
-    ,
-[007] : T, }
-, match pack as A { """ ++ [28040; 24687]%N ++ runes_of_ascii """
-: _x 007	:
-//x
-// " ++ [128512]%N ++ runes_of_ascii " emoji
-metadata,
-255 :
-As
-    ,
-    7 :charz, 10 : len, } , f32 len
-, @leftPad ('\x00'  )float32 trueish , }
-")).
-Eval vm_compute in ("<<<M844>>>" ++ check (runes_of_ascii "root packet i8i8{ }
-    root packet zchar {zchar[ 4294967296 ]
-i8i8, @lengthOf(f32a
-) match lengthOf as tag // a // b
-{ 00 :
-As,
-}
-,
-msg_type`" ++ [233]%N ++ runes_of_ascii "` , i64_ @calculatedFrom( """" ) ,
-    zchar[
-    //
-    3 ]//	t
-roots
-    , options1`u8 x,` ,
-@lengthOf( string_)
-BodyLength int `// not a comment`,
-} packet x_y_z
-    { @rightPad( ' ' )
+body
+    //	t
+    as
     //x
-    options1
-    @calculatedFrom( ""`tick`"" ) ,
-    float64
-    As @lengthOf(
-a1
-    ) ,
-    char[]
-a1 ,
-}packet
-packetx
-    {
-@leftPad ( '\x00'
-)stringy	`a\` , } packet packetx {@lengthOf(
-tag
-)	repeat  char T , @leftPad (' ' )  options1 matchKey  ,
-    }
-")).
-Eval vm_compute in ("<<<M3634>>>" ++ check (runes_of_ascii "options {
-    LittleEndian = false;
-    ArrayPrefixLenType = u8;
-    FixedStringPadChar = '0';
-}
-packet Order {
-    InNote94 {
-        f32 f1,
-        f64 Side2,
-        repeat InTail47 {
-            char[] seqNo,
-            char[] Tail,
-            char[] lastPx,
-        },
-    },
-    zchar[7] f1,
-    u8 Side2,
-}
-root packet Reject {
-    repeat char[4] Flags,
-    InPrice63 {
-        InSeqno41 {
-            repeat i8 OrderId,
-            repeat i32 clOrdID,
-            char[9] tag7,
-            char[] lastPx,
-        },
-        Order,
-        uint8 Side2,
-    },
-}
-")).
-Eval vm_compute in ("<<<M988>>>" ++ check (runes_of_ascii "packet
-    pack
-    {	A // a // b
-{ char[
-0  ]msg_type `
-` ,
-} ,@lengthOf( msg_type
-) MetaDataX {
-    int64 u @calculatedFrom(
-""a\""b""  )
-`
-`
-    ,float32// a // b
-i8i8  @calculatedFrom( ""a\\""
-) `it's` ,	match uint8x as matchKey
-    // a // b
-    {""{,}"" :
-i64_ ,
-    42 : T , 3
-:
-x // c
-}	, },@tag(10) @leftPad ( '\x00'
-)
-    zchar { f32a  Foo,}
-    ,
-match x_y_z as
-    falsey{ ""// no comment"" : i64_ ,} , // `tick` ""quote"" 'q'
-} options { uint8x
-    // " ++ [128512]%N ++ runes_of_ascii " emoji
-    =
-    '0' ;	_x
-= false // `tick` ""quote"" 'q'
-f32a =zchar[ 00]
-;
-}
-")).
-Eval vm_compute in ("<<<M397>>>" ++ check (runes_of_ascii "
-root
-packet rootA	{@calculatedFrom( """ ++ [28040; 24687]%N ++ runes_of_ascii """ ) u  `" ++ [233]%N ++ runes_of_ascii "` , body , // " ++ [27880; 37322]%N ++ runes_of_ascii "
-x
-    @lengthOf( options1 // @lengthOf(
-)
+    falsey{00 :
+BodyLength
+    , [ 10 , 0,""1""	, 0123456789 , ""a\\"" ,""`tick`"",
+    """",
+    4294967296 ]
+    :
+stringy // c
+, // trailing space 
+"""" : // " ++ [128512]%N ++ runes_of_ascii " emoji
+trueish
+, // packet A { u8 x, }
+[""CRC32"" , 00 , 10
 ,
-// " ++ [128512]%N ++ runes_of_ascii " emoji
-// c
-matchKey , @calculatedFrom( ""packet"" ) char[] f32a , u8 options1	`tab	here`
-    , } packet Packet//
+    1  ] :
+int , } , i8 T ,
+    // `tick` ""quote"" 'q'
+    } /// triple
+, msg_type{ int64 u ,
+}
+,match rootA//x
+as i64_ {
+    7
+: uint8x ,} ,
+} ,
+repeat// `tick` ""quote"" 'q'
+calculatedFrom //x
 {
-    } options
-    { chars = 00 ;
-Foo// packet A { u8 x, }
-= true ;trueish
-    // " ++ [27880; 37322]%N ++ runes_of_ascii "
-    = ""1""; zchar = f64; matchKey =// " ++ [27880; 37322]%N ++ runes_of_ascii "
-false ; } packet metadata {
-    @leftPad
-    ( '\x00' ) f32 charz @calculatedFrom(  ""{,}""
-)
-    `// not a comment`
-,@calculatedFrom(""1""
-) repeat int8 crc ,	}
-")).
-Eval vm_compute in ("<<<M786>>>" ++ check (runes_of_ascii "MetaData
-    metadata{ } packet u // a // b
-{ //
-@lengthOf(	T) // packet A { u8 x, }
-@lengthOf(u ) /// triple
-@leftPad ('0'
-//	t
-// " ++ [27880; 37322]%N ++ runes_of_ascii "
-) repeat
-    uint8
-x_y_z `" ++ [28040; 24687; 31867; 22411]%N ++ runes_of_ascii "`,
-    } root packet A{ @tag(
-    // a // b
-    10 )
-repeat zchar[ 0
-    ]
-    asx `doc` ,
-    char[// @lengthOf(
-7 ]float//x
-@lengthOf(BodyLength)	`crlf
-line` ,
-zchar[ 0123456789 ] u128
-,@rightPad
-    ( )  repeat zchar[ 255
-] Packet
-    ``
-    ,BodyLength Pad
-,
-    @tag(1
-)zchar[
-    10] float @lengthOf( roots) ,}")).
-Eval vm_compute in ("<<<M366>>>" ++ check (runes_of_ascii "  packet tag  {
-@calculatedFrom(""" ++ [28040; 24687]%N ++ runes_of_ascii """)A
-    `" ++ [233]%N ++ runes_of_ascii "`
-    ,
-    // a // b
-    match u as
-// c
-// trailing space 
-len	{ [42 , """ ++ [233]%N ++ runes_of_ascii "t" ++ [233]%N ++ runes_of_ascii """ ] : As
-42 :
-    string_
-,
-""CRC32"" :
-body , ""x y"":
-    x //
-,  [
+Pad T,
+    repeatCount
+    int , i16
+    crc @calculatedFrom( ""packet""
+) `` ,
+    match
 // `tick` ""quote"" 'q'
-// @lengthOf(
-007 , 4294967296 ,""{,}"" ,
-""""
-    , """ ++ [28040; 24687]%N ++ runes_of_ascii """ , ""it's"" , """ ++ [128512]%N ++ runes_of_ascii """
-    ] : u
-    // " ++ [128512]%N ++ runes_of_ascii " emoji
-    ,""" ++ [28040; 24687]%N ++ runes_of_ascii """  : _x,  }
-,@lengthOf(rootA) u128 `doc`
-,// " ++ [27880; 37322]%N ++ runes_of_ascii "
-} options { falsey
-=
-string
-string_=int8 ; } options
-{// c
-charz
-// c
-// trailing space 
-= ""CRC32"" }
-")).
-Eval vm_compute in ("<<<M4513>>>" ++ check (runes_of_ascii "
-options  {
-o
-
-    = 
-' ' ;
-lengthOf
-
-    =
-	""it's""string_
-	= """ ++ [28040; 24687]%N ++ runes_of_ascii """
-;
-
-    i8i8	// c
-	=
-
-uint32	}packet Logon
-{Pad
-	@lengthOf(	stringy
-    )	,
-@rightPad ('\x00'  )
-
-    Header  stringy `a\`
-    , T
-
-{  match a1
+// packet A { u8 x, }
+u128
 as
-Logon	{	42 :
-chars
-	},
-}	,stringy  {
-	zchar[
-	7	// trailing space 
-	] x_y_z
-, }, 
-uint8x
-BodyLength 
-, 
-repeat  zchar
-
-,  @tag(
-
-7 
-)repeat	// packet A { u8 x, }
-  u64
-
-    u128 `" ++ [28040; 24687; 31867; 22411]%N ++ runes_of_ascii "`// packet A { u8 x, }
-    , }
+As { """" : crc,
+[ 65535 , 4294967296 , 007
+    ,
+""a	b""
+, 10 // `tick` ""quote"" 'q'
+]
+    : rootA
+, } , } ,
+    zchar[4294967296 ]  u
+,
+repeat uint16
+    string_ `a\`	, } root
+packet A{	match Logon as asx { [	3 ,	""a	b""
+] : MetaDataX ,
+    0
+: lengthOf ,""packet""
+:
+// packet A { u8 x, }
+// " ++ [27880; 37322]%N ++ runes_of_ascii "
+u8x,	255 : repeatCount , [00 ,""""  ] :
+charz
+,
+["""" ]:msg_type, }  ,}
 ")).
-Eval vm_compute in ("<<<M3805>>>" ++ check (runes_of_ascii "options {
-    Logon = int32;
-    x_y_z = ""1""
-    f32a = 007
-    BodyLength = zchar[3];
-    MetaDataX = false;
+Eval vm_compute in ("<<<M3755>>>" ++ check (runes_of_ascii "// c
+packet options1 {
+    roots @lengthOf(zchar),
+    @calculatedFrom(""" ++ [128512]%N ++ runes_of_ascii """)
+    uint64 matchKey,
+    @tag(42)
+    i64 Logon @lengthOf(i64_) `doc`,
+    @calculatedFrom(""a\""b"")
+    A,
+    @calculatedFrom(""it's"")
+    repeat Pad ``,
+    @tag(7)
+    zchar[00] trueish `" ++ [233]%N ++ runes_of_ascii "`,
+    repeat options1 {
+        repeatCount {
+            Header,
+            char[7] Logon `a\`,/// triple
+        },
+    },
+    char[1] int `doc`,// a // b
+    @calculatedFrom("""")
+    @calculatedFrom(""a	b"")
+    @lengthOf(packetx)
+    msg_type {
+        string calculatedFrom `{ , }`,
+        zchar @calculatedFrom(""" ++ [28040; 24687]%N ++ runes_of_ascii """),
+        uint8 o `doc`,
+        f32a,
+    },//x
 }
 
-packet A {
-    match A as A {
-        42 : _x,
+MetaData Z9_ {
+    char A,
+}
+
+packet options1 {
+    msg_type {
+        chars,
+        zchar[3] crc `doc`,
     },
+    @lengthOf(crc)
+    @tag(10)
+    @lengthOf(asx)
+    zchar[10] Header @calculatedFrom(""a\\"") `u8 x,`,
 }
 
 packet int {
-    //
-    _x asx,
+    string x_y_z,
+    @calculatedFrom(""\" ++ [233]%N ++ runes_of_ascii """)
+    match pack as roots {
+        65535 : options1,
+        // @lengthOf(
+    },
+}")).
+Eval vm_compute in ("<<<M4403>>>" ++ check (runes_of_ascii "packet leftPad {
 }
 
-packet trueish {
-    float @calculatedFrom(""""),
-    zchar[65535] Pad @calculatedFrom(""a	b"") `
-        `,
+packet u {
+    @leftPad(' ')
+    char[65535] leftPad,
+    int8 packetx,
+    string stringy `crlf
+        line`,
+    @leftPad(' ')
+    // " ++ [128512]%N ++ runes_of_ascii " emoji
+    i64 x @lengthOf(u) `" ++ [28040; 24687; 31867; 22411]%N ++ runes_of_ascii "`,
+    @lengthOf(pack)
+    // a // b
+    //
+    u64 asx @lengthOf(repeatCount) `u8 x,`,
+    o A,
+}
+
+root packet charz {
+    char[] repeatCount @lengthOf(tag) ``,
+    repeat pack `a\`,
+    @calculatedFrom(""// no comment"")
+    T {
+        string rootA @calculatedFrom(""{,}""),
+    },
+    repeat As Foo,
+    char[3] trueish,
+    @calculatedFrom("""")
+    @lengthOf(metadata)
+    @leftPad('0')
+    repeat u64 float `{ , }`,
+    stringy {
+        // packet A { u8 x, }
+        // c
+        metadata {
+            u8 f32a `two words`,
+            repeat char[007] f32a `
+                        `,
+        },
+        u32 asx @calculatedFrom(""" ++ [233]%N ++ runes_of_ascii "t" ++ [233]%N ++ runes_of_ascii """),
+        float64 i8i8,//x
+    },
+    // c
+    // " ++ [27880; 37322]%N ++ runes_of_ascii "
+    match lengthOf as zchar {
+        00 : o,
+    },
+}")).
+Eval vm_compute in ("<<<M4249>>>" ++ check (runes_of_ascii "  root 
+packet 
+As
+
+{
+repeat
+    //	t
+	x
+
+msg_type	,
+	} MetaData
+crc
+	{// c
+u8	x
+,	}	root
+
+    packet
+// " ++ [128512]%N ++ runes_of_ascii " emoji
+    	Logon
+{
+
+@calculatedFrom(
+""1"" )  @rightPad	( ' ')
+
+@leftPad (
+    ) string msg_type
+    @lengthOf(
+	uint8x
+)
+    `a\`  ,	match
+    calculatedFrom 
+as	i8i8
+{
+[
+""\" ++ [233]%N ++ runes_of_ascii """ ]
+:
+
+options1
+, 	 // c
+
+1
+    :
+
+asx
+
+    ,
+
+    [
+
+42 ,
+
+42 
+    //
+
+,//	t
+    """ ++ [28040; 24687]%N ++ runes_of_ascii """// `tick` ""quote"" 'q'
+
+  ,""""
+,  // " ++ [128512]%N ++ runes_of_ascii " emoji
+    7
+
+    ]  // @lengthOf(
+    :
+
+    x_y_z ,
+    [ 	 // " ++ [27880; 37322]%N ++ runes_of_ascii "
+
+0	//x
+	] 
+:
+	    // packet A { u8 x, }
+  asx
+
+    //
+
+	7
+    :
+u8x
+[7
+    ]: 
+u  ,
+},
+	}
+MetaData
+repeatCount 
+{
+float
+    Foo , As 	 //	t
+i8i8	,}
+	packet
+tag  {  @leftPad  (
+' ' )
+
+match
+Z9_
+
+as
+msg_type{  
+      //
+
+	[
+10 ,
+	""a\""b"" , 
+0
+
+    , 255, 7
+
+,
+
+0123456789
+
+,
+	10
+	]	:
+
+Logon,
+	""" ++ [233]%N ++ runes_of_ascii "t" ++ [233]%N ++ runes_of_ascii """	:
+    a1 
+, 7
+
+// packet A { u8 x, }
+		/// triple
+	:
+i64_, 
+255
+:
+leftPad
+    }
+, }")).
+Eval vm_compute in ("<<<M1053>>>" ++ check (runes_of_ascii "packet
+    repeatCount
+    {	match	float as u { // trailing space 
+""" ++ [128512]%N ++ runes_of_ascii """ :	i64_ , // trailing space 
+}
+    , repeat Z9_
+    {string metadata `u8 x,` , }	,
+u8 lengthOf ,
+repeat float { zchar[ 255 // `tick` ""quote"" 'q'
+]
+    matchKey@lengthOf( u8x ) , uint8 Packet
+    `" ++ [233]%N ++ runes_of_ascii "`	,x_y_z As	, zchar[
+/// triple
+// " ++ [128512]%N ++ runes_of_ascii " emoji
+3 ] chars `it's` ,
+} ,
+    repeat a1
+,@calculatedFrom(  ""it's"")uint64 x_y_z ,
+match metadata  as Packet
+{ [ """ ++ [233]%N ++ runes_of_ascii "t" ++ [233]%N ++ runes_of_ascii """]
+: BodyLength , 3 :
+    o  ,
+    //
+    65535 : Z9_// " ++ [27880; 37322]%N ++ runes_of_ascii "
+, [ ""CRC32""] :
+    Packet ,  ""a\\"":
+int , 4294967296 : Foo,}
+, repeat
+// trailing space 
+// c
+int {
+    // `tick` ""quote"" 'q'
+    lengthOf @lengthOf(o
+// trailing space 
+// " ++ [27880; 37322]%N ++ runes_of_ascii "
+) // " ++ [128512]%N ++ runes_of_ascii " emoji
+`// not a comment`// c
+, repeat Packet a1 ,}	,
+    //
+    @lengthOf( u )char[ 10 // @lengthOf(
+] packetx @calculatedFrom(""abc"" ) , @rightPad
+    ( '0' )  T,}
+")).
+Eval vm_compute in ("<<<M3758>>>" ++ check (runes_of_ascii "// top
+options {
+    StringPrefixLenType = u8;
+    // c5
+    ArrayPrefixLenType = u32;// c9a
+    // c9b
+}
+
+packet Quote {
+    // c13
+    u32 Ref,// c16
+    InNote74 {
+        // c18
+        u8 pad0,// c21a
+        // c21b
+    },
+    // c23
+}
+
+// c24
+packet Ack {
+    // c27a
+    // c27b
+    repeat string OrderId,
+}// c32
+
+packet Logout {
+    // c35
+    zchar[7] venue,// c40
+    char[12] Px,// c45
+    string count,
+    // c48
+    char[] Tail,
+    // c51
+    char[] Qty,// c54a
+    // c54b
+    Quote,// c56
+}
+
+root packet Trade {
+    // c61
+    zchar[2] price,// c66
+    u32 x,// c69a
+    // c69b
+    u32 lastPx @lengthOf(Body),
+    // c75
+    match x as Body {
+        // c80
+        148 : Ack,
+        171 : Quote,
+        15 : Logout,
+        // c92a
+        // c92b
+    },
+    // c94
+}")).
+Eval vm_compute in ("<<<M4505>>>" ++ check (runes_of_ascii "
+packet A 
+{ 
+repeatCount
+
+{ 
+        // " ++ [27880; 37322]%N ++ runes_of_ascii "
+      repeat string	//	t
+    falsey`" ++ [233]%N ++ runes_of_ascii "`
+, x	Z9_//x
+,  rootA  repeatCount
+`a\` 
+, repeat 	 // " ++ [128512]%N ++ runes_of_ascii " emoji
+	char[]
+    x_y_z 
+`` ,
+}
+,
+}root	packet
+//
+int
+	{
+@calculatedFrom(  ""\n"" )
+
+    @calculatedFrom(""a\\"" 	 // trailing space 
+
+) repeat
+
+    lengthOf
+
+repeatCount  `two words` 
+    // packet A { u8 x, }
+    // c
+	,
+
+    }
+    root
+	packet BodyLength
+
+{ @calculatedFrom(""`tick`"" )  repeat
+	asx{	zchar[ 10
+] 
+MetaDataX , repeat
+	char[4294967296
+	]
+rootA
+    `say ""hi""`	, 
+uint64
+As
+`" ++ [233]%N ++ runes_of_ascii "`
+
+    ,
+    chars
+
+u ,	}
+    ,
+    @tag(
+	0123456789 )@tag(
+0)string
+	roots
+
+`" ++ [28040; 24687; 31867; 22411]%N ++ runes_of_ascii "`,u8  crc /// triple
+	`{ , }`
+    , // a // b
+
+@calculatedFrom(
+
+""CRC32""
+)
+    repeat	i64_ _x
+
+    ,
+char
+    Packet , }
+
+")).
+Eval vm_compute in ("<<<M201>>>" ++ check (runes_of_ascii "packet _x{
+    u ,@lengthOf( len)
+    match f32a as
+    Pad{""packet"": metadata,
+""CRC32"":x_y_z[ ""abc"" , ""{,}"" ] : Logon , }
+    // c
+    , zchar[ 7  ]	a1  ,
+    @tag( 65535 ) @tag(
+0123456789
+    )
+    //x
+    @lengthOf(
+asx ) repeat
+i16 // @lengthOf(
+tag `{ , }` // `tick` ""quote"" 'q'
+,
+    @leftPad	(
+'\x00' ) match i64_ as x { 0 :crc , [
+//	t
+// trailing space 
+""// no comment"" ] : uint8x ,
+    42
+// a // b
+// trailing space 
+:  string_	, 007 : trueish , [10 ]// " ++ [128512]%N ++ runes_of_ascii " emoji
+: rootA
+""" ++ [28040; 24687]%N ++ runes_of_ascii """
+    : // trailing space 
+len , } //
+, @rightPad (
+'\x00' // trailing space 
+) @tag(
+    //
+    00 ) @calculatedFrom( """ ++ [233]%N ++ runes_of_ascii "t" ++ [233]%N ++ runes_of_ascii """ ) // c
+char[]float
+@calculatedFrom(	""\n"" ),repeat f32 trueish `crlf
+line` ,} // @lengthOf(")).
+Eval vm_compute in ("<<<M927>>>" ++ check (runes_of_ascii "packet msg_type{ trueish	float ,zchar[ 0123456789 ]
+    trueish @lengthOf( i8i8 )
+, i64  Pad ,
+//x
+/// triple
+i64_  @lengthOf(	_x )
+    // a // b
+    ``
+, // `tick` ""quote"" 'q'
+match Foo  as As { [ """ ++ [28040; 24687]%N ++ runes_of_ascii """  , //
+""packet""
+    ,
+    1 , 7
+//
+/// triple
+,3
+, ""a	b""
+    ,  7 ] :
+_x 255
+: Foo , ""x y"" :  i64_ ,
+1 :
+options1 // trailing space 
+,} , lengthOf { //	t
+char[] u128 , u32 o , }
+    ,
+    }
+options {} MetaData len
+    {
+char Logon
+    //	t
+    ,
+repeatCount lengthOf ,
+    Z9_  o ,
+    string MetaDataX
+`
+` , uint32 repeatCount , Header falsey ,
+//	t
+// trailing space 
+} // `tick` ""quote"" 'q'
+MetaData calculatedFrom{ string	Packet `crlf
+line`
+, }
+// packet A { u8 x, }
+")).
+Eval vm_compute in ("<<<M4143>>>" ++ check (runes_of_ascii "root packet f32a {
+    zchar[0123456789] Foo,
+    zchar @lengthOf(a1),
+    @rightPad()
+    @tag(3)
+    match int as stringy {
+        [0] : chars,
+        0 : i8i8,
+        42 : i64_,
+        [255, 7, ""1"", ""a\\""] : leftPad,
+        """ ++ [233]%N ++ runes_of_ascii "t" ++ [233]%N ++ runes_of_ascii """ : Header,
+        [7] : repeatCount,
+    },
+    i32 falsey @lengthOf(u128) `two words`,
+    @tag(0)
+    char[] uint8x `{ , }`,// " ++ [128512]%N ++ runes_of_ascii " emoji
+    repeat MetaDataX {
+        string len,// `tick` ""quote"" 'q'
+    },
+    @leftPad('\x00')
+    zchar[0123456789] o,
+    f32 As @calculatedFrom(""a\\""),
+    @lengthOf(string_)
+    repeat u128 ``,
+    pack {
+        crc stringy,
+        repeat string asx,
+    },
+}")).
+Eval vm_compute in ("<<<M1028>>>" ++ check (runes_of_ascii "
+options { Packet=' ' BodyLength=
+65535 zchar	=
+'0'// @lengthOf(
+; lengthOf //x
+=
+    false ;}options {
+o
+= true ;
+Foo
+    = ""a\\"";} MetaData chars{
+    zchar[
+00
+// " ++ [128512]%N ++ runes_of_ascii " emoji
+//
+] // packet A { u8 x, }
+A ,
+Packet calculatedFrom
+    , falsey
+options1, int32 x_y_z, char[]
+    zchar
+// " ++ [128512]%N ++ runes_of_ascii " emoji
+// " ++ [128512]%N ++ runes_of_ascii " emoji
+, }
+    MetaData // " ++ [27880; 37322]%N ++ runes_of_ascii "
+_x { stringy f32a
+`u8 x,`  ,
+} packet f32a
+//
+// " ++ [27880; 37322]%N ++ runes_of_ascii "
+{
+    @calculatedFrom(""a\\"" )// " ++ [128512]%N ++ runes_of_ascii " emoji
+match a1
+as x_y_z
+{
+    [ """ ++ [233]%N ++ runes_of_ascii "t" ++ [233]%N ++ runes_of_ascii """ , """" ,""" ++ [128512]%N ++ runes_of_ascii """ , ""`tick`"" ,
+""x y"" , //	t
+""abc""
+// `tick` ""quote"" 'q'
+// " ++ [27880; 37322]%N ++ runes_of_ascii "
+,
+    ""\" ++ [233]%N ++ runes_of_ascii """ ,""packet""]	: int
+,
+    }	,
+//
+// c
+repeat uint16	f32a `crlf
+line` , }")).
+Eval vm_compute in ("<<<M678>>>" ++ check (runes_of_ascii "packet
+MetaDataX
+{
+    matchKey , }packet x
+    { i32 msg_type
+,leftPad
+{ string Logon // " ++ [27880; 37322]%N ++ runes_of_ascii "
+@lengthOf(body )
+    ,} ,/// triple
+repeat
+    options1
+{
+    i8i8 msg_type `a\` , } , @tag( 0
+)
+    @leftPad() // `tick` ""quote"" 'q'
+int64 f32a
+@lengthOf( asx) `tab	here`,char[]  pack
+`" ++ [28040; 24687; 31867; 22411]%N ++ runes_of_ascii "` , //x
+@lengthOf(	stringy ) repeat leftPad  , @leftPad // packet A { u8 x, }
+( ' '//	t
+) @leftPad (  )
+    match Logon	as roots{//x
+""`tick`""// a // b
+:
+string_
+,	}	, @tag(
+    0123456789// `tick` ""quote"" 'q'
+)
+@calculatedFrom(
+    ""1""
+) @leftPad(
+) u32	x_y_z @calculatedFrom(
+""\" ++ [233]%N ++ runes_of_ascii """ )
+    ,}
+")).
+Eval vm_compute in ("<<<M3753>>>" ++ check (runes_of_ascii "options {
+    leftPad = ""{,}""
+    f32a = true
+    trueish = zchar[007];
+    crc = ""`tick`"";// c
+}//x
+
+root packet body {
+    asx @lengthOf(f32a) ``,
+    f64 body @lengthOf(int),
+    zchar[255] BodyLength,
+    zchar[7] leftPad `line1
+    line2`,
+    @lengthOf(asx)
+    u128 @lengthOf(BodyLength) `// not a comment`,
+    @lengthOf(As)
+    char[42] _x @lengthOf(i8i8) `line1
+    line2`,
+    char[1] options1 @calculatedFrom(""packet"") `say ""hi""`,
 }
 
 options {
-    // " ++ [128512]%N ++ runes_of_ascii " emoji
-    f32a = zchar[42];
-    body = ""`tick`"";//
-    As = true
-    tag = 3;
-    packetx = true
+    leftPad = 007;
+    charz = false
+    repeatCount = ""// no comment""
+    u = 0123456789
 }")).
-Eval vm_compute in ("<<<M4091>>>" ++ check (runes_of_ascii "packet len {
-    @tag(4294967296)
-    repeat f32 a1 `" ++ [28040; 24687; 31867; 22411]%N ++ runes_of_ascii "`,
-    uint8x `
-    `,
+Eval vm_compute in ("<<<M4398>>>" ++ check (runes_of_ascii "MetaData a1 {
+    // `tick` ""quote"" 'q'
+    //	t
+    _x asx,
 }
 
-root packet rootA {
-    match crc as i8i8 {
-        ""a\""b"" : _x,
-        00 : Packet,
-        ""// no comment"" : MetaDataX,
-        // c
-        [007, """ ++ [28040; 24687]%N ++ runes_of_ascii """] : MetaDataX,
-        42 : charz,
-        [""" ++ [233]%N ++ runes_of_ascii "t" ++ [233]%N ++ runes_of_ascii """, ""abc""] : _x,
+MetaData Packet {
+    BodyLength int,
+}
+
+root packet x {
+    @leftPad(' ')
+    f64 repeatCount @lengthOf(x) `line1
+    line2`,
+    @rightPad('\x00')
+    match i8i8 as pack {
+        [
+            10, """ ++ [128512]%N ++ runes_of_ascii """, 10, ""a	b"", 1,
+            7
+        ] : leftPad,
+        [
+            255, 10, 0, 1, """ ++ [233]%N ++ runes_of_ascii "t" ++ [233]%N ++ runes_of_ascii """,
+            ""x y""
+        ] : A,
+        """ ++ [28040; 24687]%N ++ runes_of_ascii """ : u,
+        00 : charz,
+        // a // b
+        """ ++ [28040; 24687]%N ++ runes_of_ascii """ : len,
+        0 : As,
     },
-    uint16 Logon,
-    @leftPad(' ')
-    @leftPad(' ')
-    uint8 stringy @lengthOf(msg_type) `
-    `,
+    f32 x `" ++ [233]%N ++ runes_of_ascii "`,
+}
+
+MetaData x {
 }")).
-Eval vm_compute in ("<<<M4051>>>" ++ check (runes_of_ascii "  packet 
-	// @lengthOf(
-      x
+Eval vm_compute in ("<<<M4488>>>" ++ check (runes_of_ascii "
+packet 
+roots
+    {repeat u8x`two words`  , repeat
+	roots 	 // " ++ [128512]%N ++ runes_of_ascii " emoji
+{// " ++ [27880; 37322]%N ++ runes_of_ascii "
+	  char[ 1 ]
+Z9_
+    `it's`
+,  // " ++ [128512]%N ++ runes_of_ascii " emoji
+
+  char[ 	 // trailing space 
+	  42
+    ]
+
+    float `" ++ [28040; 24687; 31867; 22411]%N ++ runes_of_ascii "`
+,	} ,
+char[]
+	As  `a\`
+
+,
+
+calculatedFrom
 
     { 
-int8 	 // packet A { u8 x, }
-	T
-	,}
+repeat	uint64
+    trueish , 
+}
+, repeat  i64 MetaDataX ,	repeat string	uint8x `say ""hi""`
+    ,
+_x A `
+`  ,
+    @lengthOf(// `tick` ""quote"" 'q'
 
-options
-
-{ } packet Z9_
-{ @lengthOf(
-//	t
-  A
-)  As
-@calculatedFrom(
-
-    ""x y""
-    ) ,
-	}
-    MetaData
-	//
-// " ++ [128512]%N ++ runes_of_ascii " emoji
-  Logon
-
-{ 
-	//x
-  //x
-
-pack 
-trueish	, 	 /// triple
-	rootA charz
-, leftPad
-
-leftPad
-
+Packet )
+    @tag(7 )@leftPad 
+( // packet A { u8 x, }
+	)
+	Header
+{ u128 
+,  repeat char[]
+	trueish
+    `a\` 
 ,
-	char[]
+}  , }")).
+Eval vm_compute in ("<<<M3873>>>" ++ check (runes_of_ascii "
+MetaData
+    asx {
 
-    Logon  , 
-// a // b
-	// " ++ [27880; 37322]%N ++ runes_of_ascii "
-f64
+    u32
+    asx  ,
+//
+		// a // b
+	roots Packet
 
-matchKey	,
-    falsey  falsey`two words`
-    , }")).
-Eval vm_compute in ("<<<M4199>>>" ++ check (runes_of_ascii "  // trailing space 
-  	packet Packet{
+    // " ++ [128512]%N ++ runes_of_ascii " emoji
+	,}
+root 
+packet 
+pack	{  // @lengthOf(
+	len
+
+@calculatedFrom( ""// no comment""	)  ,  match pack
+
+as leftPad{
+
+    [	007]	// `tick` ""quote"" 'q'
+    :
+    crc  
+      //	t
+		, 10	:
+tag,
+7 
+:	packetx 
+, """ ++ [28040; 24687]%N ++ runes_of_ascii """ 
+:
+    stringy, 65535: i64_	,
+	1:
+MetaDataX , } , 
+zchar[ 
+	/// triple
+
+  4294967296]  chars
 
     @calculatedFrom(
-""`tick`""  )
-// a // b
-  // `tick` ""quote"" 'q'
+	    //	t
+	""\n"" 
 
-  repeat 
-rootA{ 
-        //
-    repeat
-    int8 
-u128 `
-`
-	,char[  4294967296
-
-]
-A
-
-@lengthOf(
-
-    Foo  )
-
-    ,}
-
-    ,
-    repeat
-
-i16  leftPad
-,
-@lengthOf( // a // b
-x ) float64  float// " ++ [128512]%N ++ runes_of_ascii " emoji
-@lengthOf( roots
-
-    ) ,  } // trailing space ")).
-Eval vm_compute in ("<<<M368>>>" ++ check (runes_of_ascii "packet f32a{
-    /// triple
-    @calculatedFrom( """" ) matchKey	@lengthOf(
-Packet	) `// not a comment` , match msg_type
-//	t
-// c
-as lengthOf {"""":Z9_ ,
-    ""`tick`""
-    : crc , // " ++ [27880; 37322]%N ++ runes_of_ascii "
-[ //
-""\n"" ]: T	,
-    ""x y""
-    :
-    // " ++ [128512]%N ++ runes_of_ascii " emoji
-    _x
-    ,// @lengthOf(
-[  ""a\""b"" //
-] :  u128 }
-,zchar[ 7 ]
-// trailing space 
-// a // b
-_x
-,repeat len MetaDataX ,}
-")).
-Eval vm_compute in ("<<<M1152>>>" ++ check (runes_of_ascii "packet lengthOf { string falsey
-//
-// trailing space 
-, repeat char[] tag  `
-`
-    // " ++ [27880; 37322]%N ++ runes_of_ascii "
-    ,
-    @rightPad('0' ) body { int8 pack@calculatedFrom( """" )`say ""hi""`
-    ,// a // b
-repeat
-    char calculatedFrom ,float32 leftPad @lengthOf(
-A )
-// c
-// @lengthOf(
-, int64  Header ,	}
-, i64_`{ , }`
-,
-f64 repeatCount `" ++ [233]%N ++ runes_of_ascii "` ,
-} // trailing space ")).
-Eval vm_compute in ("<<<M3942>>>" ++ check (runes_of_ascii "packet string_ {
-    @lengthOf(int)
-    BodyLength u8x,
-    i64_ `tab	here`,
-    char[3] string_,
-    repeat leftPad `" ++ [28040; 24687; 31867; 22411]%N ++ runes_of_ascii "`,
-    repeat int32 BodyLength `u8 x,`,// `tick` ""quote"" 'q'
-    @tag(4294967296)
-    BodyLength `crlf
-        line`,
-    msg_type Packet `" ++ [233]%N ++ runes_of_ascii "`,
-    float32 string_ @calculatedFrom(""""),
-    asx int `it's`,
-}")).
-Eval vm_compute in ("<<<M1906>>>" ++ check (runes_of_ascii "MetaData
-    u { }  options {
-// c
-// @lengthOf(
-float = int8 ;rootA rootA =false ; As =	int16 // `tick` ""quote"" 'q'
-repeatCount
-    // trailing space 
-    =
-    int16
-; u8x =
-    //	t
-    '\x00' ; } options	{
-    repeatCount
-= 0
-u128
-    //
-    = false ; i64_
-// trailing space 
-// `tick` ""quote"" 'q'
-= '0' ; //	t
-}
-")).
-Eval vm_compute in ("<<<M1928>>>" ++ check (runes_of_ascii "MetaData
-    u { }  options {
-// c
-// @lengthOf(
-float = int8 ;rootA =false ; @tag( =	int16 // `tick` ""quote"" 'q'
-repeatCount
-    // trailing space 
-    =
-    int16
-; u8x =
-    //	t
-    '\x00' ; } options	{
-    repeatCount
-= 0
-u128
-    //
-    = false ; i64_
-// trailing space 
-// `tick` ""quote"" 'q'
-= '0' ; //	t
-}
-")).
-Eval vm_compute in ("<<<M2069>>>" ++ check (runes_of_ascii "MetaData
-    u { }  options {
-// c
-// @lengthOf(
-float = int8 ;rootA =false ; As =	| int16 // `tick` ""quote"" 'q'
-repeatCount
-    // trailing space 
-    =
-    int16
-; u8x =
-    //	t
-    '\x00' ; } options	{
-    repeatCount
-= 0
-u128
-    //
-    = false ; i64_
-// trailing space 
-// `tick` ""quote"" 'q'
-= '0' ; //	t
-}
-")).
-Eval vm_compute in ("<<<M1917>>>" ++ check (runes_of_ascii "MetaData
-    u { }  options {
-// c
-// @lengthOf(
-float = int8 ;rootA =; false As =	int16 // `tick` ""quote"" 'q'
-repeatCount
-    // trailing space 
-    =
-    int16
-; u8x =
-    //	t
-    '\x00' ; } options	{
-    repeatCount
-= 0
-u128
-    //
-    = false ; i64_
-// trailing space 
-// `tick` ""quote"" 'q'
-= '0' ; //	t
-}
-")).
-Eval vm_compute in ("<<<M2074>>>" ++ check (runes_of_ascii "MetaData
-    u { }  options {
-// c
-// @lengthOf(
-float = int8 ;rootA =false ; " ++ [21517; 23383]%N ++ runes_of_ascii " =	int16 // `tick` ""quote"" 'q'
-repeatCount
-    // trailing space 
-    =
-    int16
-; u8x =
-    //	t
-    '\x00' ; } options	{
-    repeatCount
-= 0
-u128
-    //
-    = false ; i64_
-// trailing space 
-// `tick` ""quote"" 'q'
-= '0' ; //	t
-}
-")).
-Eval vm_compute in ("<<<M475>>>" ++ check (runes_of_ascii "options {zchar= ' '
-    ;
-    MetaDataX
-    =
-    zchar[ 255
-] // " ++ [128512]%N ++ runes_of_ascii " emoji
-; } options
-{ options1 = ""1""
-//x
-// " ++ [128512]%N ++ runes_of_ascii " emoji
-; } MetaData u128
-/// triple
-// `tick` ""quote"" 'q'
-{ char[]
-    leftPad , } options //	t
-{ a1 = 255; }  packet
-    As { repeat char[007 ]
-    A , f32a@lengthOf( calculatedFrom
-    ) ,
-    }
-
-")).
-Eval vm_compute in ("<<<M2053>>>" ++ check (runes_of_ascii "MetaData
-    u { }  options {
-// c
-// @lengthOf(
-float = int8 ;rootA =false ; As =	int16 // `tick` ""quote"" 'q'
-repeatCount
-    // trailing space 
-    =
-    int16
-; u8x =
-    //	t
-    '\x00' ; } options	{
-    repeatCount
-= 0
-u128
-    //
-    = false ; i64_
-// trailing space 
-// `tick` ""quote"" 'q'
-= '0' ;")).
-Eval vm_compute in ("<<<M425>>>" ++ check (runes_of_ascii "// trailing space 
-packet Packet
-{@calculatedFrom(
-""`tick`""
+    // `tick` ""quote"" 'q'
+	// " ++ [27880; 37322]%N ++ runes_of_ascii "
 )
-// a // b
-// `tick` ""quote"" 'q'
-repeat rootA  {
-    //
-    repeat int8 u128`
-` , char[
-4294967296
-]A@lengthOf(
-Foo ) , } , repeat i16	leftPad , @lengthOf( // a // b
-x ) float64 float // " ++ [128512]%N ++ runes_of_ascii " emoji
-@lengthOf(roots), } // trailing space ")).
-Eval vm_compute in ("<<<M486>>>" ++ check (runes_of_ascii "options
-    { /// triple
-} MetaData
-    Logon // packet A { u8 x, }
-{ char[ 65535 ] i8i8
-, }
-options
-{ u128
-= f64 options1 = int8;  Packet
-    // " ++ [27880; 37322]%N ++ runes_of_ascii "
-    = true; falsey
-=char[255
-    ] uint8x
-    =uint32
-;	}	MetaData
-//x
+	,
+    }
+")).
+Eval vm_compute in ("<<<M592>>>" ++ check (runes_of_ascii "// " ++ [128512]%N ++ runes_of_ascii " emoji
+packet int
+    { }options { string_=true
+Z9_ = //
+'\x00'
+    ; uint8x
+    = false}
+packet body
+{ int16
+Foo ,
+repeat	string
+roots `
+`
+// " ++ [128512]%N ++ runes_of_ascii " emoji
+//
+,//	t
+stringy a1
+    `tab	here` ,int8
+    repeatCount , @lengthOf(chars )
+    match
+    _x as repeatCount{""CRC32"" :
+f32a ,
+    [
+    // packet A { u8 x, }
+    0123456789 ,""it's"" ]:
+    Logon
+    , [""// no comment"" ,10
+, ""a\""b"" ]	:trueish
+, [ 0 ]: trueish , 0
+: BodyLength, },
+    } /// triple")).
+Eval vm_compute in ("<<<M191>>>" ++ check (runes_of_ascii "packet x
+{ repeat
+    string_
+    { repeat asx	Foo
+    /// triple
+    ,int16 i8i8 , char[] matchKey ,
+// @lengthOf(
 // trailing space 
-i64_ {
-} packet BodyLength  { } // a // b")).
-Eval vm_compute in ("<<<M3482>>>" ++ check (runes_of_ascii "packet chars // c1a
+match calculatedFrom as // a // b
+roots  { 3
+: x_y_z , }
+    , }
+, @lengthOf(x ) repeat o `say ""hi""`
+    ,//	t
+char[] string_	`" ++ [28040; 24687; 31867; 22411]%N ++ runes_of_ascii "`
+, @lengthOf( f32a )	match
+    Pad as
+    A //	t
+{ ""a	b"": u128 , [""\" ++ [233]%N ++ runes_of_ascii """ ,
+65535
+    , 255
+,""CRC32""
+,
+1 ]
+    : i8i8
+0123456789 : falsey //	t
+, } , }packet zchar { }
+")).
+Eval vm_compute in ("<<<M3787>>>" ++ check (runes_of_ascii "
+packet
+	Packet 
+
+// " ++ [128512]%N ++ runes_of_ascii " emoji
+//	t
+{
+
+@leftPad( 
+'\x00'	) 
+        // `tick` ""quote"" 'q'
+    match
+trueish
+
+    as	Pad 
+{  65535
+    :
+
+    Header
+    ,
+00 :	// `tick` ""quote"" 'q'
+	roots 
+[
+    """ ++ [233]%N ++ runes_of_ascii "t" ++ [233]%N ++ runes_of_ascii """  ,
+
+""1""
+
+    ,	""packet""
+
+    ,
+    42 
+,
+
+0
+,
+
+    ""x y""
+    ,""" ++ [128512]%N ++ runes_of_ascii """,
+
+""a	b""
+]
+:	BodyLength
+    ,
+    """ ++ [28040; 24687]%N ++ runes_of_ascii """:	Packet  , [ """ ++ [128512]%N ++ runes_of_ascii """
+
+    ]:
+
+body	}
+,
+
+    }	//x
+options
+        // a // b
+
+	{ /// triple
+As  =
+	u16 } ")).
+Eval vm_compute in ("<<<M635>>>" ++ check (runes_of_ascii "  MetaData
+    f32a {
+char[]
+trueish ,  float64 u128
+`" ++ [28040; 24687; 31867; 22411]%N ++ runes_of_ascii "` ,
+    //	t
+    tag // a // b
+f32a ,matchKey // " ++ [128512]%N ++ runes_of_ascii " emoji
+int `two words` , i8	pack `a\` , } packet asx	{ int8	Header`say ""hi""`,} MetaData roots {i32 tag `" ++ [233]%N ++ runes_of_ascii "` ,
+    crc  Z9_ ,
+T T
+    `
+` , //
+int32  matchKey,
+matchKey Header`line1
+line2`
+// " ++ [27880; 37322]%N ++ runes_of_ascii "
+// trailing space 
+,
+// `tick` ""quote"" 'q'
+//x
+char[
+0 ] MetaDataX
+    ,
+// c
+// @lengthOf(
+} // " ++ [27880; 37322]%N)).
+Eval vm_compute in ("<<<M4335>>>" ++ check (runes_of_ascii "options {
+}
+
+options {
+    a1 = ' '
+    falsey = false;
+    f32a = 10;
+    // packet A { u8 x, }
+}
+
+packet u8x {
+    repeat BodyLength {
+        calculatedFrom @calculatedFrom(""{,}"") `{ , }`,
+        uint8 MetaDataX `say ""hi""`,
+    },
+}
+
+MetaData matchKey {
+    i8 roots `
+        `,
+    i64 rootA `say ""hi""`,/// triple
+    f64 chars `" ++ [28040; 24687; 31867; 22411]%N ++ runes_of_ascii "`,
+    zchar[3] asx `" ++ [233]%N ++ runes_of_ascii "`,
+    string msg_type,
+}")).
+Eval vm_compute in ("<<<M3523>>>" ++ check (runes_of_ascii "// top
+packet
+    // c0
+float // c1a
   // c1b
 { // c2a
   // c2b
-} // c3a
-  // c3b
-packet
-    // c4
-MetaDataX // c5a
-  // c5b
-{ @tag( // c7a
-  // c7b
-42
-    // c8
-) i16 // c10a
-  // c10b
-string_ // c11a
-  // c11b
-, // c12a
-  // c12b
-repeat // c13
-x `say ""hi""` // c15
-, // c16a
+repeat // c3
+i8i8 MetaDataX // c5
+`it's` // c6
+, rootA // c8
+, // c9a
+  // c9b
+repeat // c10
+int8 // c11
+int // c12
+, match // c14
+repeatCount // c15
+as // c16a
   // c16b
-} ")).
-Eval vm_compute in ("<<<M3659>>>" ++ check (runes_of_ascii "options {
-    LittleEndian = true;
-}
-packet Sub {
-    u8 a,
-    @calculatedFrom(""CRC16"") u64 SubSum,
-}
-root packet Frame {
-    u16 MsgType,
-    u16 BodyLen @lengthOf(Body),
-    Sub Body,
-    string note,
-    @calculatedFrom(""CRC16"") u64 Checksum,
-    u8 tail,
-}
+x_y_z {
+    // c18
+""{,}"" // c19a
+  // c19b
+: // c20
+Logon // c21
+, // c22a
+  // c22b
+} // c23
+, // c24a
+  // c24b
+} // c25a
+  // c25b
 ")).
-Eval vm_compute in ("<<<M1515>>>" ++ check (runes_of_ascii "packet
-//	t
-// trailing space 
-_x {
-// packet A { u8 x, }
-// c
-char[
-3
-    uint8 u8x @lengthOf(
-u8x ) , @calculatedFrom(""" ++ [128512]%N ++ runes_of_ascii """ // @lengthOf(
-)
-i16	Foo
-@lengthOf(	string_
-    )`doc`	, repeat	i64 metadata , @lengthOf( string_
-) i8 // c
-u  `line1
-line2`	,
+Eval vm_compute in ("<<<M3543>>>" ++ check (runes_of_ascii "// top
+packet
+    // c0
+B // c1a
+  // c1b
+{ u8 // c3
+a // c4a
+  // c4b
+, }
+    // c6
+root // c7
+packet
+    // c8
+P
+    // c9
+{ // c10
+u8 // c11
+K // c12
+,
+    // c13
+u8
+    // c14
+L // c15a
+  // c15b
+@lengthOf( Body
+    // c17
+) ,
+    // c19
+match
+    // c20
+K as Body {
+    // c24
+1 // c25
+: B ,
+    // c28
+} // c29a
+  // c29b
+, // c30
 }
+    // c31
 ")).
-Eval vm_compute in ("<<<M1643>>>" ++ check (runes_of_ascii "packet
-//	t
-// trailing space 
-_x {
-// packet A { u8 x, }
-// c
-char[
-3
-    ] u8x @lengthOf(
-u8x ) , @calculatedFrom(""" ++ [128512]%N ++ runes_of_ascii """ // @lengthOf(
-)
-i16	Foo
-@lengthOf(	string_
-    )`doc`	, repeat	i64 metadata , @lengthOf( string_
-) i8 // c
-u  `line1
-line2`	, ,
-}
-")).
-Eval vm_compute in ("<<<M1510>>>" ++ check (runes_of_ascii "packet
-//	t
-// trailing space 
-_x {
-// packet A { u8 x, }
-// c
-char[
+Eval vm_compute in ("<<<M4101>>>" ++ check (runes_of_ascii "  packet 
+calculatedFrom
+    {
+
+@calculatedFrom(
+""a	b""
+	)T// packet A { u8 x, }
+      {
+
+zchar[
+
+0123456789] 
+falsey
+    `say ""hi""`
+
+,
+	match
+
+o  as
+    // " ++ [27880; 37322]%N ++ runes_of_ascii "
+	matchKey
 {
-    ] u8x @lengthOf(
-u8x ) , @calculatedFrom(""" ++ [128512]%N ++ runes_of_ascii """ // @lengthOf(
-)
-i16	Foo
-@lengthOf(	string_
-    )`doc`	, repeat	i64 metadata , @lengthOf( string_
-) i8 // c
-u  `line1
-line2`	,
+
+    [  ""`tick`""
+    , 
+//
+""it's""
+]: int
+    ,	1
+    :
+float// a // b
+
+  , }
+    ,
+    string
+    Foo @calculatedFrom(
+""a\\"" )
+,  // `tick` ""quote"" 'q'
+}  , } ")).
+Eval vm_compute in ("<<<M1102>>>" ++ check (runes_of_ascii "packet int{ @tag(7 )
+@tag(007 )zchar[ 4294967296	]	Logon @calculatedFrom(""it's"" )	`" ++ [233]%N ++ runes_of_ascii "`
+    ,
+    @leftPad (
+)@lengthOf( falsey ) char
+    x @lengthOf(
+// `tick` ""quote"" 'q'
+// " ++ [27880; 37322]%N ++ runes_of_ascii "
+msg_type )  `it's` ,
+    match
+a1 as BodyLength
+{ 42 : u
 }
-")).
-Eval vm_compute in ("<<<M2034>>>" ++ check (runes_of_ascii "MetaData
+, repeat float32 packetx , asx `u8 x,` // trailing space 
+, lengthOf ,
+roots
+, }")).
+Eval vm_compute in ("<<<M2003>>>" ++ check (runes_of_ascii "MetaData
     u { }  options {
 // c
 // @lengthOf(
@@ -2012,12 +1769,230 @@ repeatCount
 ; u8x =
     //	t
     '\x00' ; } options	{
+    repeatCount
+@tag( 0
+u128
+    //
+    = false ; i64_
+// trailing space 
+// `tick` ""quote"" 'q'
+= '0' ; //	t
+}
+")).
+Eval vm_compute in ("<<<M2006>>>" ++ check (runes_of_ascii "MetaData
+    u { }  options {
+// c
+// @lengthOf(
+float = int8 ;rootA =false ; As =	int16 // `tick` ""quote"" 'q'
+repeatCount
+    // trailing space 
+    =
+    int16
+; u8x =
+    //	t
+    '\x00' ; } options	{
+    repeatCount
+= 0 0
+u128
+    //
+    = false ; i64_
+// trailing space 
+// `tick` ""quote"" 'q'
+= '0' ; //	t
+}
+")).
+Eval vm_compute in ("<<<M1328>>>" ++ check (runes_of_ascii "MetaData Pad
+{	roots	f32a , char[ 10
+// trailing space 
+//	t
+] u8x	, //	t
+calculatedFrom
+A , }
+packet leftPad	{ roots// " ++ [27880; 37322]%N ++ runes_of_ascii "
+@lengthOf(
+string_) `two words`
+,@tag(
+255
+)match o as options1	{ [
+    0 //
+, ""1""
+,
+""" ++ [128512]%N ++ runes_of_ascii """
+//x
+//	t
+,42 ]
+    :
+    //
+    i8i8
+    , } , /// triple
+repeatCount msg_type , }	options
+{
+    }")).
+Eval vm_compute in ("<<<M1997>>>" ++ check (runes_of_ascii "MetaData
+    u { }  options {
+// c
+// @lengthOf(
+float = int8 ;rootA =false ; As =	int16 // `tick` ""quote"" 'q'
+repeatCount
+    // trailing space 
+    =
+    int16
+; u8x =
+    //	t
+    '\x00' ; } options	{
+    =
+repeatCount 0
+u128
+    //
+    = false ; i64_
+// trailing space 
+// `tick` ""quote"" 'q'
+= '0' ; //	t
+}
+")).
+Eval vm_compute in ("<<<M1990>>>" ++ check (runes_of_ascii "MetaData
+    u { }  options {
+// c
+// @lengthOf(
+float = int8 ;rootA =false ; As =	int16 // `tick` ""quote"" 'q'
+repeatCount
+    // trailing space 
+    =
+    int16
+; u8x =
+    //	t
+    '\x00' ; } options	
     repeatCount
 = 0
 u128
     //
-    = false ;")).
-Eval vm_compute in ("<<<M1562>>>" ++ check (runes_of_ascii "packet
+    = false ; i64_
+// trailing space 
+// `tick` ""quote"" 'q'
+= '0' ; //	t
+}
+")).
+Eval vm_compute in ("<<<M3847>>>" ++ check (runes_of_ascii "packet
+    //	t
+    	// trailing spa'ce 
+  _x { 
+      // packet A { u8 x, }
+      // c
+  char[	3  ]u8x@lengthOf(  u8x)
+
+    ,
+@calculatedFrom(
+
+    """ ++ [128512]%N ++ runes_of_ascii """// @lengthOf(
+		)
+i16
+
+Foo	@lengthOf(  string_
+) 
+`doc` ,	repeat
+    i64 
+metadata  , @lengthOf( string_
+
+    )	i8	// c
+	u	`line1
+line2`
+
+    ,}")).
+Eval vm_compute in ("<<<M290>>>" ++ check (runes_of_ascii "packet i8i8
+{ zchar[	10 ]a1 ,	}packet x_y_z {
+//
+// c
+} options{	matchKey
+= false// " ++ [128512]%N ++ runes_of_ascii " emoji
+;
+Foo=
+i32 ; MetaDataX  = 007 pack =
+""" ++ [28040; 24687]%N ++ runes_of_ascii """
+// a // b
+// c
+; }  packet leftPad  {} root packet// a // b
+stringy{/// triple
+rootA Pad ,	falsey @calculatedFrom( ""it's"") `two words` , u8x float
+, int64
+u8x, } //x")).
+Eval vm_compute in ("<<<M447>>>" ++ check (runes_of_ascii "packet roots { @tag(  255) zchar[ 00] lengthOf	`" ++ [233]%N ++ runes_of_ascii "`
+    , zchar[ 7
+// @lengthOf(
+//
+] u `say ""hi""`// " ++ [27880; 37322]%N ++ runes_of_ascii "
+, }  options { } options { calculatedFrom
+= 4294967296 // " ++ [128512]%N ++ runes_of_ascii " emoji
+i64_ = '\x00' ; i64_
+= ""abc"" ; }  MetaData roots{
+    char[]
+    BodyLength`two words`
+, i16 Header `// not a comment`, }")).
+Eval vm_compute in ("<<<M219>>>" ++ check (runes_of_ascii "MetaData _x
+{As	f32a `doc` // " ++ [128512]%N ++ runes_of_ascii " emoji
+, }
+packet// @lengthOf(
+x {	zchar[  255
+    ]	calculatedFrom  ,string_@calculatedFrom( ""a	b"" ) , @calculatedFrom(""" ++ [128512]%N ++ runes_of_ascii """)@tag(
+4294967296 )@calculatedFrom(""a	b""
+) char[ 0 ]i64_
+`" ++ [28040; 24687; 31867; 22411]%N ++ runes_of_ascii "` ,
+    @leftPad(' '  ) repeat
+// c
+// c
+MetaDataX
+    ,}")).
+Eval vm_compute in ("<<<M332>>>" ++ check (runes_of_ascii "// packet A { u8 x, }
+options{
+    T
+=""packet"" ; } MetaData x_y_z
+{
+char roots ,
+    T f32a `{ , }`, } root packet // " ++ [128512]%N ++ runes_of_ascii " emoji
+uint8x
+{ @calculatedFrom( ""// no comment"") repeat As
+{rootA
+@calculatedFrom(
+""" ++ [28040; 24687]%N ++ runes_of_ascii """ ) `{ , }` , u16 zchar`{ , }` ,  char[	7
+]o `" ++ [233]%N ++ runes_of_ascii "` ,
+} ,}
+")).
+Eval vm_compute in ("<<<M4359>>>" ++ check (runes_of_ascii "
+packet
+
+    falsey 
+    //
+  {
+@calculatedFrom(  // @lengthOf(
+
+  ""`tick`""
+)  Pad 
+/// triple
+
+  // c
+    {
+match	pack	as  roots {
+""" ++ [233]%N ++ runes_of_ascii "t" ++ [233]%N ++ runes_of_ascii """ :
+u
+	,
+    42 :  //
+	  As
+    ""packet"" :
+
+    Logon
+    , }
+	,
+},	} 
+options{ 
+}
+root
+
+    packet 
+stringy
+
+{	}
+
+")).
+Eval vm_compute in ("<<<M1565>>>" ++ check (runes_of_ascii "packet
 //	t
 // trailing space 
 _x {
@@ -2028,7 +2003,7 @@ char[
     ] u8x @lengthOf(
 u8x ) , @calculatedFrom(""" ++ [128512]%N ++ runes_of_ascii """ // @lengthOf(
 )
-i16	
+i16	uint64
 @lengthOf(	string_
     )`doc`	, repeat	i64 metadata , @lengthOf( string_
 ) i8 // c
@@ -2036,7 +2011,7 @@ u  `line1
 line2`	,
 }
 ")).
-Eval vm_compute in ("<<<M1525>>>" ++ check (runes_of_ascii "packet
+Eval vm_compute in ("<<<M1530>>>" ++ check (runes_of_ascii "packet
 //	t
 // trailing space 
 _x {
@@ -2044,8 +2019,8 @@ _x {
 // c
 char[
 3
-    ] u8x 3
-u8x ) , @calculatedFrom(""" ++ [128512]%N ++ runes_of_ascii """ // @lengthOf(
+    ] u8x @lengthOf(
+true ) , @calculatedFrom(""" ++ [128512]%N ++ runes_of_ascii """ // @lengthOf(
 )
 i16	Foo
 @lengthOf(	string_
@@ -2055,89 +2030,150 @@ u  `line1
 line2`	,
 }
 ")).
-Eval vm_compute in ("<<<M3987>>>" ++ check (runes_of_ascii "
-packet
-
-lengthOf
-{
-
-}packet
-
-Z9_	{  } 
-packet	uint8x
-{leftPad
-
-    Foo 
-    // `tick` ""quote"" 'q'
-    `" ++ [233]%N ++ runes_of_ascii "` , 	 // c
-  @calculatedFrom(
-	//
-	  /// triple
-    ""\n"" )
-@calculatedFrom(
-""" ++ [128512]%N ++ runes_of_ascii """	)  zchar[0123456789 ]
-	metadata
-    ,
-    }
-")).
-Eval vm_compute in ("<<<M2009>>>" ++ check (runes_of_ascii "MetaData
-    u { }  options {
+Eval vm_compute in ("<<<M1564>>>" ++ check (runes_of_ascii "packet
+//	t
+// trailing space 
+_x {
+// packet A { u8 x, }
 // c
-// @lengthOf(
-float = int8 ;rootA =false ; As =	int16 // `tick` ""quote"" 'q'
-repeatCount
-    // trailing space 
-    =
-    int16
-; u8x =
-    //	t
-    '\x00' ; } options	{
-    repeatCount
-=")).
-Eval vm_compute in ("<<<M3264>>>" ++ check (runes_of_ascii "// top
-MetaData // c0
-float // c1
-{ // c2
-float64 // c3
-charz // c4
-`
-` // c5
-, // c6
-} // c7
-root // c8
-packet // c9
-chars // c10
-{ // c11
-@rightPad // c12
-( // c13
-'0' // c14
-) // c15
-Foo // c16
-, // c17
-} // c18
-")).
-Eval vm_compute in ("<<<M1804>>>" ++ check (runes_of_ascii "options { trueish = ""`tick`"" ; string_= """ ++ [233]%N ++ runes_of_ascii "t" ++ [233]%N ++ runes_of_ascii """
-    // c
-    } root
-    packet body { stringy @calculatedFrom(
-""a	b"" ) `line1
-line2` , }
-packet Logon {
-    @leftPad(
-    0123456789 ) //	t
-u16 string_ `u8 x,` ,
+char[
+3
+    ] u8x @lengthOf(
+u8x ) , @calculatedFrom(""" ++ [128512]%N ++ runes_of_ascii """ // @lengthOf(
+)
+i16	@lengthOf(
+Foo	string_
+    )`doc`	, repeat	i64 metadata , @lengthOf( string_
+) i8 // c
+u  `line1
+line2`	,
 }
 ")).
-Eval vm_compute in ("<<<M1704>>>" ++ check (runes_of_ascii "options { trueish = ""`tick`"" ; @lengthOf(= """ ++ [233]%N ++ runes_of_ascii "t" ++ [233]%N ++ runes_of_ascii """
+Eval vm_compute in ("<<<M1577>>>" ++ check (runes_of_ascii "packet
+//	t
+// trailing space 
+_x {
+// packet A { u8 x, }
+// c
+char[
+3
+    ] u8x @lengthOf(
+u8x ) , @calculatedFrom(""" ++ [128512]%N ++ runes_of_ascii """ // @lengthOf(
+)
+i16	Foo
+@lengthOf(	string_
+    `doc`	, repeat	i64 metadata , @lengthOf( string_
+) i8 // c
+u  `line1
+line2`	,
+}
+")).
+Eval vm_compute in ("<<<M280>>>" ++ check (runes_of_ascii "
+options
+{charz =""x y"" calculatedFrom =	'0'	} packet msg_type {msg_type asx, string// packet A { u8 x, }
+packetx ,MetaDataX,
+Header { i64 packetx`tab	here`
+,  }, } options { // @lengthOf(
+uint8x = 0 x_y_z =	""x y""
+// packet A { u8 x, }
+//	t
+; }")).
+Eval vm_compute in ("<<<M1004>>>" ++ check (runes_of_ascii "root
+packet calculatedFrom { repeat string charz,@calculatedFrom( """ ++ [233]%N ++ runes_of_ascii "t" ++ [233]%N ++ runes_of_ascii """
+)
+Foo @lengthOf(
+    tag ) `a\`,match
+_x  as
+    As // c
+{""{,}"" :f32a,	} ,}
+    MetaData body { leftPad asx , u Pad //x
+`
+` , zchar[3]
+leftPad ,
+metadata chars ,	}
+")).
+Eval vm_compute in ("<<<M3>>>" ++ check (runes_of_ascii "
+options	{
+} MetaData pack {string T ,
+    msg_type
+    // a // b
+    stringy `" ++ [233]%N ++ runes_of_ascii "`
+, }
+    // " ++ [128512]%N ++ runes_of_ascii " emoji
+    packet a1 {
+// " ++ [128512]%N ++ runes_of_ascii " emoji
+// packet A { u8 x, }
+repeat i32 x , i16 msg_type @calculatedFrom( ""it's""
+    )`two words` , } // " ++ [27880; 37322]%N)).
+Eval vm_compute in ("<<<M1747>>>" ++ check (runes_of_ascii "options { trueish = ""`tick`"" ; string_= """ ++ [233]%N ++ runes_of_ascii "t" ++ [233]%N ++ runes_of_ascii """
     // c
     } root
-    packet body { stringy @calculatedFrom(
+    packet body { stringy @calculatedFrom( @calculatedFrom(
 ""a	b"" ) `line1
 line2` , }
 packet Logon {
     @leftPad(
     ' ' ) //	t
 u16 string_ `u8 x,` ,
+}
+")).
+Eval vm_compute in ("<<<M4311>>>" ++ check (runes_of_ascii "
+options  // c
+    {
+x_y_z
+	=
+	f64 }// " ++ [27880; 37322]%N ++ runes_of_ascii "
+  root 
+packet As{
+
+@tag( 255 )
+string
+    BodyLength,
+
+@leftPad
+
+( )
+    match Foo
+as body
+{
+	007
+    : 
+i8i8, 42
+	: metadata
+,	// @lengthOf(
+"""" :body
+
+,
+
+    }	, }")).
+Eval vm_compute in ("<<<M1727>>>" ++ check (runes_of_ascii "options { trueish = ""`tick`"" ; string_= """ ++ [233]%N ++ runes_of_ascii "t" ++ [233]%N ++ runes_of_ascii """
+    // c
+    } root
+    packet packet body { stringy @calculatedFrom(
+""a	b"" ) `line1
+line2` , }
+packet Logon {
+    @leftPad(
+    ' ' ) //	t
+u16 string_ `u8 x,` ,
+}
+")).
+Eval vm_compute in ("<<<M3610>>>" ++ check (runes_of_ascii "packet Logon {
+    string user,
+}
+root packet Frame {
+    u8 K,
+    match K as Body {
+        1 : Logon,
+        2 : Logout,
+    },
+    Tail,
+}
+packet Logout {
+    u16 reason,
+}
+packet Tail {
+    u32 crc,
 }
 ")).
 Eval vm_compute in ("<<<M1759>>>" ++ check (runes_of_ascii "options { trueish = ""`tick`"" ; string_= """ ++ [233]%N ++ runes_of_ascii "t" ++ [233]%N ++ runes_of_ascii """
@@ -2164,19 +2200,19 @@ packet Logon {
 u16 string_ `u8 x,` ,
 }
 ")).
-Eval vm_compute in ("<<<M1786>>>" ++ check (runes_of_ascii "options { trueish = ""`tick`"" ; string_= """ ++ [233]%N ++ runes_of_ascii "t" ++ [233]%N ++ runes_of_ascii """
+Eval vm_compute in ("<<<M1771>>>" ++ check (runes_of_ascii "options { trueish = ""`tick`"" ; string_= """ ++ [233]%N ++ runes_of_ascii "t" ++ [233]%N ++ runes_of_ascii """
     // c
     } root
     packet body { stringy @calculatedFrom(
 ""a	b"" ) `line1
-line2` , }
-packet Logon 
+line2` , 
+packet Logon {
     @leftPad(
     ' ' ) //	t
 u16 string_ `u8 x,` ,
 }
 ")).
-Eval vm_compute in ("<<<M1684>>>" ++ check (runes_of_ascii "options { = = ""`tick`"" ; string_= """ ++ [233]%N ++ runes_of_ascii "t" ++ [233]%N ++ runes_of_ascii """
+Eval vm_compute in ("<<<M1675>>>" ++ check (runes_of_ascii "[ { trueish = ""`tick`"" ; string_= """ ++ [233]%N ++ runes_of_ascii "t" ++ [233]%N ++ runes_of_ascii """
     // c
     } root
     packet body { stringy @calculatedFrom(
@@ -2188,43 +2224,62 @@ packet Logon {
 u16 string_ `u8 x,` ,
 }
 ")).
-Eval vm_compute in ("<<<M4228>>>" ++ check (runes_of_ascii "MetaData BodyLength {
-    falsey Logon `{ , }`,
-    u8 int `" ++ [28040; 24687; 31867; 22411]%N ++ runes_of_ascii "`,
-    zchar[7] len,
-}
+Eval vm_compute in ("<<<M3687>>>" ++ check (runes_of_ascii "//	t
+MetaData
+    chars	{ falsey
 
-MetaData u {
-    Logon matchKey `{ , }`,
-    char[42] int `line1
-        line2`,
-    char[7] x_y_z `doc`,
-}")).
-Eval vm_compute in ("<<<M506>>>" ++ check (runes_of_ascii "MetaData metadata { //	t
-uint8x pack , a1
-f32a , zchar a1 , rootA Header ,
-    char[  42
-    ]	string_,
-    asx charz `crlf
-line`
-    // @lengthOf(
-    , } options /// triple
-{
-    } 	 ")).
-Eval vm_compute in ("<<<M1185>>>" ++ check (runes_of_ascii "  packet zchar { @calculatedFrom( ""// no comment""
-)i32
-//x
-//
-x_y_z , }options {int = i8 ; MetaDataX
-=
-// trailing space 
-// c
-char[] ; Logon
-    =false; roots= 0//
-Pad
-=
-false ;
-}")).
+pack , packetx
+
+zchar  `
+`,
+}  // " ++ [128512]%N ++ runes_of_ascii " emoji
+    packet
+	u128
+
+    {
+@lengthOf( tag	)@tag(
+	// trailing space 
+  1
+)
+
+@rightPad	('\x00'
+    )i64
+
+T
+    ,
+}
+")).
+Eval vm_compute in ("<<<M513>>>" ++ check (runes_of_ascii "packet
+u128 {
+f64 chars ``
+, @lengthOf(metadata ) @lengthOf(matchKey
+    )// trailing space 
+@tag(42
+    )a1@lengthOf( MetaDataX ) `
+` ,
+}
+    // c
+    packet f32a	{
+    // " ++ [128512]%N ++ runes_of_ascii " emoji
+    }
+")).
+Eval vm_compute in ("<<<M3389>>>" ++ check (runes_of_ascii "// top
+MetaData // c0
+body // c1
+{ // c2
+i64 // c3
+pack // c4
+`it's` // c5
+, // c6
+} // c7
+packet // c8
+stringy // c9
+{ // c10
+int16 // c11
+calculatedFrom // c12
+, // c13
+} // c14
+")).
 Eval vm_compute in ("<<<M1065>>>" ++ check (runes_of_ascii "packet	stringy { // trailing space 
 @lengthOf(rootA ) repeat char[] len`u8 x,`, float32 zchar,@tag(
     42
@@ -2232,112 +2287,63 @@ Eval vm_compute in ("<<<M1065>>>" ++ check (runes_of_ascii "packet	stringy { // 
     255
 ) @tag( 10 )
     repeatCount, repeat leftPad ,} 	 ")).
-Eval vm_compute in ("<<<M259>>>" ++ check (runes_of_ascii "options { Pad = char[]; u8x
-    // trailing space 
-    =
-    ""packet"";
-o = i64
-; stringy
-=""a\""b""
-packetx
-    // trailing space 
-    = 65535
-} options
-{ chars
-= '0'}")).
-Eval vm_compute in ("<<<M4584>>>" ++ check (runes_of_ascii "packet lengthOf {
-}
-
-packet Z9_ {
-}
-
-packet uint8x {
-    leftPad Foo `" ++ [233]%N ++ runes_of_ascii "`,// c
-    @calculatedFrom(""\n"")
-    @calculatedFrom(""" ++ [128512]%N ++ runes_of_ascii """)
-    zchar[0123456789] metadata,
+Eval vm_compute in ("<<<M3726>>>" ++ check (runes_of_ascii "packet A {
+    match k as n {
+        [
+            ""a"", 22, ""c c"", 4, ""e"",
+            66, ""g"", 8, ""i"", 10,
+            ""k"", 12
+        ] : B,
+        2 : C,
+    },
 }")).
-Eval vm_compute in ("<<<M2125>>>" ++ check (runes_of_ascii "options{
-_x
-= true
-} options
-{ o	= /// triple
-false false
-    ; chars
-= ""\n"" } root packet	Pad
-/// triple
-// packet A { u8 x, }
-{	chars
-    // a // b
-    ,}")).
-Eval vm_compute in ("<<<M2202>>>" ++ check (runes_of_ascii "options{
-_x
-= true
-} options
-{ o	= /// triple
-false
-    ; chars
-= ""\n"" } root packet	Pad
-/// triple
-// packet A { u@tag8 x, }
-{	chars
-    // a // b
-    ,}")).
-Eval vm_compute in ("<<<M403>>>" ++ check (runes_of_ascii "packet body {  @leftPad (
-    ) zchar[
-0 ] metadata , chars {
-repeat
-    // " ++ [128512]%N ++ runes_of_ascii " emoji
-    u8 string_,
-string options1
-    @calculatedFrom( """ ++ [28040; 24687]%N ++ runes_of_ascii """
-    ) , },}")).
-Eval vm_compute in ("<<<M2406>>>" ++ check (runes_of_ascii "// c
+Eval vm_compute in ("<<<M4444>>>" ++ check (runes_of_ascii "
+root
+packet
+
+matchKey
+	{zchar[
+3]
+
+    pack
+    @calculatedFrom( ""a	b""
+	)
+
+    `doc` ,
+
+    }
+
+options
+
+{ }
+    MetaData A{  // c
+    int8
+	msg_type,
+	}
+
+")).
+Eval vm_compute in ("<<<M2336>>>" ++ check (runes_of_ascii "// c
 packet x { @lengthOf( metadata ) repeat lengthOf
 ,a1{
 trueish	,// c
 repeat//	t
 MetaDataX , } , zchar[
-    42	rootA ] // `tick` ""quote"" 'q'
+    options	] rootA // `tick` ""quote"" 'q'
 ,
     }
 ")).
-Eval vm_compute in ("<<<M1954>>>" ++ check (runes_of_ascii "MetaData
-    u { }  options {
+Eval vm_compute in ("<<<M58>>>" ++ check (runes_of_ascii "root packet chars { /// triple
+int16 trueish	@lengthOf( MetaDataX)
+`tab	here`,} MetaData
+T
+// a // b
 // c
-// @lengthOf(
-float = int8 ;rootA =false ; As =	int16 // `tick` ""quote"" 'q'
-repeatCount
-    // trailing space 
-    =")).
-Eval vm_compute in ("<<<M2080>>>" ++ check (runes_of_ascii "options
-_x
-= true
-} options
-{ o	= /// triple
-false
-    ; chars
-= ""\n"" } root packet	Pad
-/// triple
-// packet A { u8 x, }
-{	chars
-    // a // b
+{
+    int64 packetx `doc`
+    // @lengthOf(
     ,}")).
-Eval vm_compute in ("<<<M2164>>>" ++ check (runes_of_ascii "options{
-_x
-= true
-} options
-{ o	= /// triple
-false
-    ; chars
-= ""\n"" } root packet	
-/// triple
-// packet A { u8 x, }
-{	chars
-    // a // b
-    ,}")).
-Eval vm_compute in ("<<<M2333>>>" ++ check (runes_of_ascii "// c
-packet x { @lengthOf( metadata ) repeat (
+Eval vm_compute in ("<<<M2390>>>" ++ check (runes_of_ascii "// c
+packet x i8 @lengthOf( metadata ) repeat lengthOf
 ,a1{
 trueish	,// c
 repeat//	t
@@ -2346,217 +2352,337 @@ MetaDataX , } , zchar[
 ,
     }
 ")).
-Eval vm_compute in ("<<<M4532>>>" ++ check (runes_of_ascii "  options {	a1 /// triple
-=	""1""
-    ;
-
-    trueish
-    =
-
-i64
-    ; stringy
-    = """ ++ [128512]%N ++ runes_of_ascii """ ; u8x
-    = 
-255
-
-    ;
-	u128
-
-    =""`tick`"" ; 
-}
-")).
-Eval vm_compute in ("<<<M1337>>>" ++ check (runes_of_ascii "
-options {
-MetaDataX = 3; matchKey =
-i32 T// packet A { u8 x, }
-= 1
-    } packet Header
-{ string i64_ @lengthOf( Packet ) `say ""hi""`,
-}")).
-Eval vm_compute in ("<<<M986>>>" ++ check (runes_of_ascii "//x
-options { Header
-= char[];} MetaData
-    Z9_ { // @lengthOf(
-x_y_z Header `crlf
-line` ,
-// " ++ [27880; 37322]%N ++ runes_of_ascii "
-// " ++ [27880; 37322]%N ++ runes_of_ascii "
-string pack ,} options { }
-")).
-Eval vm_compute in ("<<<M685>>>" ++ check (runes_of_ascii "MetaData
-u128
-    {string	falsey `u8 x,` // c
+Eval vm_compute in ("<<<M2379>>>" ++ check (runes_of_ascii "// c
+packet x { @lengthOf( ) metadata repeat lengthOf
+,a1{
+trueish	,// c
+repeat//	t
+MetaDataX , } , zchar[
+    42	] rootA // `tick` ""quote"" 'q'
 ,
-trueish
-roots , } options
-    {msg_type =
+    }
+")).
+Eval vm_compute in ("<<<M4063>>>" ++ check (runes_of_ascii "
+
+  packet A
+
+    { match  k
+
+    as n{
+    [
+	1,
+
+    22
+	,  007 ,
+    4,	5
+, 66
+,
+	7
+,
+8 ,
+
+    9 ,	10
+
+    ,11	,	12 ]  :	B
+,
+	2 
+: C	},
+} ")).
+Eval vm_compute in ("<<<M2347>>>" ++ check (runes_of_ascii "// c
+packet x { @lengthOf( metadata ) repeat lengthOf
+,{
+trueish	,// c
+repeat//	t
+MetaDataX , } , zchar[
+    42	] rootA // `tick` ""quote"" 'q'
+,
+    }
+")).
+Eval vm_compute in ("<<<M2127>>>" ++ check (runes_of_ascii "options{
+_x
+= true
+} options
+{ o	= /// triple
+u64
+    ; chars
+= ""\n"" } root packet	Pad
 /// triple
-// trailing space 
-""" ++ [128512]%N ++ runes_of_ascii """ ; }")).
-Eval vm_compute in ("<<<M1403>>>" ++ check (runes_of_ascii "
+// packet A { u8 x, }
+{	chars
+    // a // b
+    ,}")).
+Eval vm_compute in ("<<<M4374>>>" ++ check (runes_of_ascii "  root
+
 packet
-    falsey falsey { Header@calculatedFrom(""packet""  ) , char[
-    0123456789 ] packetx
-    , } // `tick` ""quote"" 'q'")).
-Eval vm_compute in ("<<<M3796>>>" ++ check (runes_of_ascii "MetaData	float  {  float64
-charz
-    `
-`
+matchKey{	zchar[ 
+
+    // c
+  3 ]
+pack @calculatedFrom(
+	""a	b"" )
+`doc` ,
+	}	options
+	{
+
+}
+MetaData A
+    {
+
+int8
+
+    msg_type, } ")).
+Eval vm_compute in ("<<<M3746>>>" ++ check (runes_of_ascii "//x
+options {
+    pack = ""{,}"";
+    asx = 65535;
+    u = zchar[007];
+    // trailing space 
+    i8i8 = char[]
+    As = ' '
+}// packet A { u8 x, }")).
+Eval vm_compute in ("<<<M4274>>>" ++ check (runes_of_ascii "
+
+  packet
+    B {u8 a ,
+	}
+root packet  P
+
+    {u8 K
+
+,
+    u64  L
+@lengthOf(	Body) ,match K 
+as
+
+    Body
+    {
+
+    1  :B	, } 
+,
+	}
+")).
+Eval vm_compute in ("<<<M4386>>>" ++ check (runes_of_ascii "options {
+}
+
+packet tag {
+    u64 u @lengthOf(u128),
+    char[] Pad @lengthOf(crc),
+    i32 options1 @lengthOf(msg_type),
+}
+
+options {
+}")).
+Eval vm_compute in ("<<<M4035>>>" ++ check (runes_of_ascii "// top
+options {
+    FixedStringPadFromLeft = true;// c5
+}
+
+// c6
+root packet P {
+    // c10
+    char[4] z,// c15
+}// c16a
+// c16b")).
+Eval vm_compute in ("<<<M4233>>>" ++ check (runes_of_ascii "// c
+root packet matchKey {
+    zchar[3] pack @calculatedFrom(""a	b"") `doc`,
+}
+
+options {
+}
+
+MetaData A {
+    int8 msg_type,
+}")).
+Eval vm_compute in ("<<<M2321>>>" ++ check (runes_of_ascii "// c
+packet x { @lengthOf( metadata ) repeat lengthOf
+,a1{
+trueish	,// c
+repeat//	t
+MetaDataX , } , zchar[
+    42	] rootA")).
+Eval vm_compute in ("<<<M3329>>>" ++ check (runes_of_ascii "root packet matchKey { zchar[ 3 ] pack @calculatedFrom(
+// c
+""a	b"" ) `doc` , } options { } MetaData A { int8 msg_type , }")).
+Eval vm_compute in ("<<<M4495>>>" ++ check (runes_of_ascii "  packet chars
+	{
+
+}
+packet 
+        // c
+    MetaDataX
+
+{
+
+@tag(42
+    )
+i16
+string_
 
     ,
-} root
-packet
-
-    chars	{
-	@rightPad
-
-(
-'0' )
-
-Foo	, }
-    // c
- 
-")).
-Eval vm_compute in ("<<<M3335>>>" ++ check (runes_of_ascii "root packet matchKey { zchar[ 3 ] pack @calculatedFrom( ""a	b"" ) `doc`
-// c
-, } options { } MetaData A { int8 msg_type , }")).
-Eval vm_compute in ("<<<M1408>>>" ++ check (runes_of_ascii "
-packet
-    falsey { { Header@calculatedFrom(""packet""  ) , char[
-    0123456789 ] packetx
-    , } // `tick` ""quote"" 'q'")).
-Eval vm_compute in ("<<<M1401>>>" ++ check (runes_of_ascii "
-char[]
-    falsey { Header@calculatedFrom(""packet""  ) , char[
-    0123456789 ] packetx
-    , } // `tick` ""quote"" 'q'")).
-Eval vm_compute in ("<<<M1485>>>" ++ check (runes_of_ascii "
-packet
-    falsey { na" ++ [239]%N ++ runes_of_ascii "ve@calculatedFrom(""packet""  ) , char[
-    0123456789 ] packetx
-    , } // `tick` ""quote"" 'q'")).
-Eval vm_compute in ("<<<M1445>>>" ++ check (runes_of_ascii "
+	repeat x `say ""hi""`
+	, } ")).
+Eval vm_compute in ("<<<M1484>>>" ++ check (runes_of_ascii "
 packet
     falsey { Header@calculatedFrom(""packet""  ) , char[
-    false ] packetx
-    , } // `tick` ""quote"" 'q'")).
-Eval vm_compute in ("<<<M2999>>>" ++ check (runes_of_ascii "packet A {
-  match k as n {
-    [""a"", ""bb"", 007, ""d"", ""e"", 66, ""g"", ""h"", 9, ""j"", ""k"", 12] : B
-    2 : C
-  },
-}")).
-Eval vm_compute in ("<<<M2995>>>" ++ check (runes_of_ascii "packet A {
-  match k as n {
-    [""a"", 22, ""c c"", 4, ""e"", 66, ""g"", 8, ""i"", 10, ""k"", 12] : B
-    2 : C
-  },
-}")).
-Eval vm_compute in ("<<<M3015>>>" ++ check (runes_of_ascii "packet A {
-    u16 len @lengthOf(body) `
-`,
-    u32 crc @calculatedFrom(""CRC32"") `
-`,
-    string body,
-}")).
-Eval vm_compute in ("<<<M2973>>>" ++ check (runes_of_ascii "packet A {
-  match k as n {
-    [""a"", ""bb"", 007, ""d"", ""e"", 66, ""g"", ""h"", 9, ""j""] : B
-    2 : C
-  },
-}")).
-Eval vm_compute in ("<<<M4271>>>" ++ check (runes_of_ascii "
-// " ++ [27880; 37322]%N ++ runes_of_ascii "
-  MetaData  msg_type{ } MetaData
-	Pad {int64 
-Header,
-	}
+    0123456789 ] packetx
+    , } // `tick` ""quote""? 'q'")).
+Eval vm_compute in ("<<<M4555>>>" ++ check (runes_of_ascii "  options
 
-    MetaData 
-matchKey
-	{} //
-")).
-Eval vm_compute in ("<<<M1536>>>" ++ check (runes_of_ascii "packet
-//	t
-// trailing space 
-_x {
-// packet A { u8 x, }
-// c
-char[
-3
-    ] u8x @lengthOf(
-u8x")).
-Eval vm_compute in ("<<<M2971>>>" ++ check (runes_of_ascii "packet A {
-  match k as n {
-    [1, 22, ""c c"", 4, 5, ""f"", 7, 8, ""i"", 10] : B
-    2 : C
-  },
-}")).
-Eval vm_compute in ("<<<M582>>>" ++ check (runes_of_ascii "MetaData f32a { u32 roots , T matchKey  `tab	here` ,
-/// triple
-// packet A { u8 x, }
-} 	 ")).
-Eval vm_compute in ("<<<M3271>>>" ++ check (runes_of_ascii "MetaData float // c
-{ float64 charz `
-` , } root packet chars { @rightPad ( '0' ) Foo , }")).
-Eval vm_compute in ("<<<M3303>>>" ++ check (runes_of_ascii "MetaData float { float64 charz `
-` , } root packet chars { @rightPad ( '0' ) Foo , // c
-}")).
-Eval vm_compute in ("<<<M3514>>>" ++ check (runes_of_ascii "packet chars { } packet MetaDataX { @tag( 42 ) i16 string_ , repeat x
-// c
-`say ""hi""` , }")).
-Eval vm_compute in ("<<<M1050>>>" ++ check (runes_of_ascii "packet matchKey // @lengthOf(
-{ // packet A { u8 x, }
-@leftPad( '0' ) int16 options1,}
-")).
-Eval vm_compute in ("<<<M1187>>>" ++ check (runes_of_ascii "options{
-a1 = false
-x
-= ""CRC32""
-// `tick` ""quote"" 'q'
-// @lengthOf(
-A  =  42
-    } 	 ")).
-Eval vm_compute in ("<<<M3221>>>" ++ check (runes_of_ascii "packet metadata { Logon { // c
-A `" ++ [28040; 24687; 31867; 22411]%N ++ runes_of_ascii "` , tag o , } , zchar len `// not a comment` , }")).
-Eval vm_compute in ("<<<M4497>>>" ++ check (runes_of_ascii "  packet
+{string_ 	 // " ++ [128512]%N ++ runes_of_ascii " emoji
 
-    Inner {u8
+  =
+false ;
 
-a
-,
-}root
+}
+options
 
-packet
-    P {
-repeat Inner
-items ,
-u8 x
-	,
-} ")).
-Eval vm_compute in ("<<<M3441>>>" ++ check (runes_of_ascii "packet o { repeat Logon uint8x , // c
-} options { asx = zchar[ 3 ] stringy = '\x00' }")).
-Eval vm_compute in ("<<<M2927>>>" ++ check (runes_of_ascii "packet A {
-  match k as n {
-    [1, ""bb"", 007, ""d"", 5, ""f"", 7] : B,
-    2 : C
-  },
-}")).
-Eval vm_compute in ("<<<M1939>>>" ++ check (runes_of_ascii "MetaData
-    u { }  options {
-// c
-// @lengthOf(
-float = int8 ;rootA =false ; As =")).
-Eval vm_compute in ("<<<M3418>>>" ++ check (runes_of_ascii "MetaData body { i64 pack `it's` , } packet stringy { int16 calculatedFrom // c
-, }")).
-Eval vm_compute in ("<<<M4485>>>" ++ check (runes_of_ascii "
-packet
-    x_y_z
 {
-    char	stringy	@calculatedFrom(""" ++ [233]%N ++ runes_of_ascii "t" ++ [233]%N ++ runes_of_ascii """  )
+options1
 
+= '\x00'falsey =10
+	tag  /// triple
+=65535
+} ")).
+Eval vm_compute in ("<<<M4407>>>" ++ check (runes_of_ascii "
+
+  packet chars
+{ }
+packet MetaDataX { // c
+    @tag(
+
+42
+) 
+i16
+    string_ 
 ,
-	} /// triple")).
+
+    repeat
+x
+`say ""hi""`
+, }
+")).
+Eval vm_compute in ("<<<M996>>>" ++ check (runes_of_ascii "
+MetaData // `tick` ""quote"" 'q'
+Foo { char[
+    4294967296
+    ] // packet A { u8 x, }
+string_ , T float , }
+")).
+Eval vm_compute in ("<<<M2964>>>" ++ check (runes_of_ascii "packet A {
+  match k as n {
+    [""a"", ""bb"", ""c c"", ""d"", ""e"", ""f"", ""g"", ""h"", ""i"", ""j""] : B,
+    2 : C
+  },
+}")).
+Eval vm_compute in ("<<<M3838>>>" ++ check (runes_of_ascii "MetaData float {
+    float64 charz `
+    `,
+}
+
+root packet chars {
+    // c
+    @rightPad('0')
+    Foo,
+}")).
+Eval vm_compute in ("<<<M4390>>>" ++ check (runes_of_ascii "
+options	{ u
+	= uint16 i8i8 =
+i8
+    ;
+
+string_=
+false; 
+asx
+    =  true lengthOf=0123456789
+; 
+}
+")).
+Eval vm_compute in ("<<<M4068>>>" ++ check (runes_of_ascii "
+packet
+metadata // c
+	{ 
+Logon{A `" ++ [28040; 24687; 31867; 22411]%N ++ runes_of_ascii "` ,
+tag  o  ,
+    } ,zchar
+
+len
+
+`// not a comment`
+
+,  } ")).
+Eval vm_compute in ("<<<M2988>>>" ++ check (runes_of_ascii "packet A {
+  match k as n {
+    [1, 22, 007, 4, 5, 66, 7, 8, 9, 10, 11, 12] : B,
+    2 : C
+  },
+}")).
+Eval vm_compute in ("<<<M2302>>>" ++ check (runes_of_ascii "options
+{ } options { BodyLength= u16 Header= f64 ; u128 =
+    true
+    ; } // a // b@leftpad")).
+Eval vm_compute in ("<<<M2239>>>" ++ check (runes_of_ascii "options
+{ } options { BodyLength string u16 Header= f64 ; u128 =
+    true
+    ; } // a // b")).
+Eval vm_compute in ("<<<M2299>>>" ++ check (runes_of_ascii "options
+{ } options { BodyLength= u1@tag6 Header= f64 ; u128 =
+    true
+    ; } // a // b")).
+Eval vm_compute in ("<<<M3277>>>" ++ check (runes_of_ascii "MetaData float { float64 charz // c
+`
+` , } root packet chars { @rightPad ( '0' ) Foo , }")).
+Eval vm_compute in ("<<<M3488>>>" ++ check (runes_of_ascii "packet chars
+// c
+{ } packet MetaDataX { @tag( 42 ) i16 string_ , repeat x `say ""hi""` , }")).
+Eval vm_compute in ("<<<M3984>>>" ++ check (runes_of_ascii "MetaData body {
+    i64 pack `it's`,
+}
+
+packet stringy {
+    int16 calculatedFrom,
+}
+// c")).
+Eval vm_compute in ("<<<M2264>>>" ++ check (runes_of_ascii "options
+{ } options { BodyLength= u16 Header= f64 i8 u128 =
+    true
+    ; } // a // b")).
+Eval vm_compute in ("<<<M2214>>>" ++ check (runes_of_ascii "options
+} { options { BodyLength= u16 Header= f64 ; u128 =
+    true
+    ; } // a // b")).
+Eval vm_compute in ("<<<M3228>>>" ++ check (runes_of_ascii "packet metadata { Logon { A `" ++ [28040; 24687; 31867; 22411]%N ++ runes_of_ascii "` ,
+// c
+tag o , } , zchar len `// not a comment` , }")).
+Eval vm_compute in ("<<<M2251>>>" ++ check (runes_of_ascii "options
+{ } options { BodyLength= u16 Header f64 ; u128 =
+    true
+    ; } // a // b")).
+Eval vm_compute in ("<<<M3451>>>" ++ check (runes_of_ascii "packet o { repeat Logon uint8x , } options { asx = // c
+zchar[ 3 ] stringy = '\x00' }")).
+Eval vm_compute in ("<<<M147>>>" ++ check (runes_of_ascii "packet
+    zchar { @lengthOf(Header )f32 string_ `a\`
+    , } // packet A { u8 x, }")).
+Eval vm_compute in ("<<<M3394>>>" ++ check (runes_of_ascii "MetaData // c
+body { i64 pack `it's` , } packet stringy { int16 calculatedFrom , }")).
+Eval vm_compute in ("<<<M4522>>>" ++ check (runes_of_ascii "
+packet A  {match
+k
+    as  n
+{
+
+    [
+    1  , ""bb""	]
+:  B ,	2 :
+	C
+} 
+,  }
+")).
+Eval vm_compute in ("<<<M1331>>>" ++ check (runes_of_ascii "MetaData  options1
+    { i8 falsey ,
+    int8  Foo `
+` , }
+root packet asx{} 	 ")).
 Eval vm_compute in ("<<<M778>>>" ++ check (runes_of_ascii "options {repeatCount
 = int64 u8x =
 //	t
@@ -2566,112 +2692,133 @@ Eval vm_compute in ("<<<M778>>>" ++ check (runes_of_ascii "options {repeatCount
 }
 // " ++ [27880; 37322]%N ++ runes_of_ascii "
 ")).
-Eval vm_compute in ("<<<M1291>>>" ++ check (runes_of_ascii "
-root packet charz
-    { @rightPad ( '0' )
-_x	@lengthOf( asx
-) `" ++ [233]%N ++ runes_of_ascii "`
-, }
-")).
-Eval vm_compute in ("<<<M1516>>>" ++ check (runes_of_ascii "packet
+Eval vm_compute in ("<<<M63>>>" ++ check (runes_of_ascii "MetaData
+    Packet { string Logon `" ++ [233]%N ++ runes_of_ascii "`
+,
+    int8
+    _x
 //	t
-// trailing space 
-_x {
+// " ++ [27880; 37322]%N ++ runes_of_ascii "
+,
+}
+
+")).
+Eval vm_compute in ("<<<M355>>>" ++ check (runes_of_ascii "options { leftPad= int32 // packet A { u8 x, }
+}
 // packet A { u8 x, }
-// c
-char[
-3")).
-Eval vm_compute in ("<<<M2879>>>" ++ check (runes_of_ascii "packet A {
-  match k as n {
-    [1, 22, ""c c""] : B,
-    2 : C
-  },
-}")).
-Eval vm_compute in ("<<<M1023>>>" ++ check (runes_of_ascii "packet x_y_z { char stringy@calculatedFrom( """ ++ [233]%N ++ runes_of_ascii "t" ++ [233]%N ++ runes_of_ascii """ ), } /// triple")).
-Eval vm_compute in ("<<<M2708>>>" ++ check (runes_of_ascii "[ '0' packet Logon char @lengthOf( ) ; ) MetaData ; int16 f64 (")).
-Eval vm_compute in ("<<<M123>>>" ++ check (runes_of_ascii "
-packet crc	{ u32 T@lengthOf( x ) `crlf
-line` ,// a // b
-}")).
-Eval vm_compute in ("<<<M2860>>>" ++ check (runes_of_ascii "packet A {
-  match k as n {
-    [""a""] : B
-    2 : C
-  },
-}")).
-Eval vm_compute in ("<<<M4446>>>" ++ check (runes_of_ascii "root packet calculatedFrom {
-    char[] trueish `
-    `,
-}")).
-Eval vm_compute in ("<<<M1436>>>" ++ check (runes_of_ascii "
-packet
-    falsey { Header@calculatedFrom(""packet""  )")).
-Eval vm_compute in ("<<<M1431>>>" ++ check (runes_of_ascii "
-packet
-    falsey { Header@calculatedFrom(""packet""")).
-Eval vm_compute in ("<<<M4553>>>" ++ check (runes_of_ascii "options {
-    falsey = ""\" ++ [233]%N ++ runes_of_ascii """;
-    lengthOf = 0;
-}")).
-Eval vm_compute in ("<<<M177>>>" ++ check (runes_of_ascii "root packet
-repeatCount{ } // trailing space ")).
-Eval vm_compute in ("<<<M737>>>" ++ check (runes_of_ascii "  MetaData
-options1{ float _x `{ , }`
-, }")).
-Eval vm_compute in ("<<<M2696>>>" ++ check (runes_of_ascii "; f32 , } true repeat u16 string lengthOf")).
-Eval vm_compute in ("<<<M3202>>>" ++ check (runes_of_ascii "root packet u128 { chars `it's` ,
-// c
-}")).
-Eval vm_compute in ("<<<M514>>>" ++ check (runes_of_ascii "root
-packet lengthOf { } options {}
 ")).
-Eval vm_compute in ("<<<M4578>>>" ++ check (runes_of_ascii "
+Eval vm_compute in ("<<<M1382>>>" ++ check (runes_of_ascii "options
+{	trueish = f64
+    ;
+i8i8  =
+int16 ;rootA = ""`tick`"" ;} 	 ")).
+Eval vm_compute in ("<<<M3574>>>" ++ check (runes_of_ascii "root packet P {
+    u8 s_u8,
+    repeat u8 r_u8,
+    u16 b_len,
+}
+")).
+Eval vm_compute in ("<<<M1909>>>" ++ check (runes_of_ascii "MetaData
+    u { }  options {
+// c
+// @lengthOf(
+float = int8 ;")).
+Eval vm_compute in ("<<<M2862>>>" ++ check (runes_of_ascii "packet A {
+  match k as n {
+    [1, 22] : B,
+    2 : C
+  },
+}")).
+Eval vm_compute in ("<<<M498>>>" ++ check (runes_of_ascii "options
+{
+//x
+// c
+} options
+    {
+Foo
+    = ""`tick`"" }
+")).
+Eval vm_compute in ("<<<M3385>>>" ++ check (runes_of_ascii "packet x { @rightPad ( ) repeat roots Logon `doc` , // c
+}")).
+Eval vm_compute in ("<<<M410>>>" ++ check (runes_of_ascii "packet crc { @rightPad ('0'
+) //x
+char[] asx `doc`	,}
+")).
+Eval vm_compute in ("<<<M995>>>" ++ check (runes_of_ascii "options
+{ Header
+    // c
+    =""a	b"" ;  } // a // b")).
+Eval vm_compute in ("<<<M3868>>>" ++ check (runes_of_ascii "  MetaData
+leftPad 	 // `tick` ""quote"" 'q'
 
-  options {pack 
-=int32
-    ;  }
+	{} ")).
+Eval vm_compute in ("<<<M85>>>" ++ check (runes_of_ascii "
+MetaData f32a { char[ 42
+    ] zchar
+, //x
+}")).
+Eval vm_compute in ("<<<M2563>>>" ++ check (runes_of_ascii "packet A { repeat x @calculatedFrom(""c""), }")).
+Eval vm_compute in ("<<<M3203>>>" ++ check (runes_of_ascii "root packet u128 { chars `it's` , } // c
 ")).
-Eval vm_compute in ("<<<M2582>>>" ++ check (runes_of_ascii "packet A { char[3] @lengthOf(y), }")).
-Eval vm_compute in ("<<<M3006>>>" ++ check (runes_of_ascii "root packet A {
-    u8 x `a
-b`,
+Eval vm_compute in ("<<<M4167>>>" ++ check (runes_of_ascii "options {
+    Header = ""a	b"";
+}// a // b")).
+Eval vm_compute in ("<<<M2608>>>" ++ check (runes_of_ascii "packet A { match k as n { [] : B }, }")).
+Eval vm_compute in ("<<<M311>>>" ++ check (runes_of_ascii "  options {
+    asx =
+    '0'
+;}
+")).
+Eval vm_compute in ("<<<M2707>>>" ++ check (runes_of_ascii ")1g5_\^|d<j.^kB#_~;!UCf%63fU|C}lDJ")).
+Eval vm_compute in ("<<<M1336>>>" ++ check (runes_of_ascii "root
+    packet
+chars
+{
+//x
+//
 }")).
-Eval vm_compute in ("<<<M2711>>>" ++ check (runes_of_ascii "jj09.>2DTk%ME=LXhml^SMAda\<;R~)")).
-Eval vm_compute in ("<<<M3112>>>" ++ check (runes_of_ascii "packet A {
- u8 x `d" ++ [8287]%N ++ runes_of_ascii "`, // c" ++ [8287]%N ++ runes_of_ascii "
+Eval vm_compute in ("<<<M4151>>>" ++ check (runes_of_ascii "packet A {
+    // a
+    u8 x,
 }")).
-Eval vm_compute in ("<<<M3001>>>" ++ check (runes_of_ascii "packet A {
-    u8 x `a
-b`,
-}")).
-Eval vm_compute in ("<<<M2447>>>" ++ check (runes_of_ascii "int8 int16 int32 int64 int")).
-Eval vm_compute in ("<<<M3258>>>" ++ check (runes_of_ascii "root packet pack // c
+Eval vm_compute in ("<<<M3160>>>" ++ check (runes_of_ascii "MetaData M {
+}// c
+packet A {}")).
+Eval vm_compute in ("<<<M4171>>>" ++ check (runes_of_ascii "options
+	{
+    a
+    = 1
+
+} ")).
+Eval vm_compute in ("<<<M2578>>>" ++ check (runes_of_ascii "packet A { u8 x `d` `e`, }")).
+Eval vm_compute in ("<<<M3259>>>" ++ check (runes_of_ascii "root packet pack
+// c
 { }")).
-Eval vm_compute in ("<<<M2669>>>" ++ check (runes_of_ascii "options { packet = 1; }")).
-Eval vm_compute in ("<<<M3920>>>" ++ check (runes_of_ascii "// packet A { u8 x, }")).
-Eval vm_compute in ("<<<M1198>>>" ++ check (runes_of_ascii "  packet i64_ { }
-
-")).
-Eval vm_compute in ("<<<M4292>>>" ++ check (runes_of_ascii "
-
-  packet
-i64_{ 
+Eval vm_compute in ("<<<M2577>>>" ++ check (runes_of_ascii "packet A { x `d` `e`, }")).
+Eval vm_compute in ("<<<M2705>>>" ++ check (runes_of_ascii "u64 MetaData char , ]")).
+Eval vm_compute in ("<<<M4588>>>" ++ check (runes_of_ascii "root packet pack {
 }")).
-Eval vm_compute in ("<<<M3106>>>" ++ check (runes_of_ascii "// c" ++ [8239]%N ++ runes_of_ascii "
+Eval vm_compute in ("<<<M3475>>>" ++ check (runes_of_ascii "MetaData o
+// c
+{ }")).
+Eval vm_compute in ("<<<M3101>>>" ++ check (runes_of_ascii "// c" ++ [8233]%N ++ runes_of_ascii "
 packet A {
 }")).
-Eval vm_compute in ("<<<M2658>>>" ++ check (runes_of_ascii "options { a = ; }")).
+Eval vm_compute in ("<<<M2656>>>" ++ check (runes_of_ascii "options { a = 1 }")).
 Eval vm_compute in ("<<<M2654>>>" ++ check (runes_of_ascii "MetaData M M { }")).
-Eval vm_compute in ("<<<M423>>>" ++ check (runes_of_ascii "
- /// triple")).
-Eval vm_compute in ("<<<M2369>>>" ++ check (runes_of_ascii "// c
-packet")).
-Eval vm_compute in ("<<<M2088>>>" ++ check (runes_of_ascii "options{")).
-Eval vm_compute in ("<<<M3768>>>" ++ check (runes_of_ascii "  //
- 
+Eval vm_compute in ("<<<M183>>>" ++ check (runes_of_ascii "packet T
+{}
 ")).
-Eval vm_compute in ("<<<M2431>>>" ++ check (runes_of_ascii "char_")).
-Eval vm_compute in ("<<<M3129>>>" ++ check (runes_of_ascii "// c" ++ [8203]%N)).
-Eval vm_compute in ("<<<M2769>>>" ++ check (runes_of_ascii "int8")).
-Eval vm_compute in ("<<<M2673>>>" ++ check (runes_of_ascii "{ }")).
-Eval vm_compute in ("<<<M2444>>>" ++ check (runes_of_ascii "u")).
+Eval vm_compute in ("<<<M2093>>>" ++ check (runes_of_ascii "options{
+_x")).
+Eval vm_compute in ("<<<M2465>>>" ++ check (runes_of_ascii "Metadata")).
+Eval vm_compute in ("<<<M2428>>>" ++ check (runes_of_ascii "char [")).
+Eval vm_compute in ("<<<M2467>>>" ++ check (runes_of_ascii "match")).
+Eval vm_compute in ("<<<M1021>>>" ++ check (runes_of_ascii "
+
+
+")).
+Eval vm_compute in ("<<<M2471>>>" ++ check (runes_of_ascii "'0'")).
+Eval vm_compute in ("<<<M476>>>" ++ check (runes_of_ascii "
+")).
+Eval vm_compute in ("<<<M2557>>>" ++ check ([21517]%N)).
